@@ -12,1243 +12,2526 @@ Definition show_fres (r : fres) : string :=
   end.
 Definition check (rs : list rune) : string := digest (show_fres (format_res rs)).
 Definition full (rs : list rune) : string := show_fres (format_res rs).
-Eval vm_compute in ("<<<M2059>>>" ++ check (runes_of_ascii "  root 
-packet  Logon
-	{ zchar[
-
-65535
-	]uint8x ,
-@leftPad( 
-) 
-repeat  f32
-    Packet
-,
-@leftPad  ( 
-' ' 
-//x
-    //	t
-  )
-
-match i8i8
-    as
-
-body // a // b
-  {
-	65535 : MetaDataX 
-, 
-007
-    :
-	Packet
-}
-,  @calculatedFrom( ""packet""
-
-)
-    uint8x 
-,  Foo@lengthOf(
-	asx
-    //	t
-  )  ,
-
-    i64 int
-
-, //
-@leftPad
-
-    (
-' '
-    )
-
+Eval vm_compute in ("<<<M1131>>>" ++ check (runes_of_ascii "
+root packet stringy
+{ @tag(10 )  string
+len ``
+    // @lengthOf(
+    ,  float64 i64_ ,@calculatedFrom(""abc"" )@leftPad (
+'\x00' )
 repeat
-rootA{int32
-zchar, match 
-stringy as
-	MetaDataX
-
-    {
-	[ """ ++ [28040; 24687]%N ++ runes_of_ascii """,
-	10
-	,
-	42	,
-""a\""b"" ,
-
-    42 
-, 7]:
-    msg_type
-,[42 ]
-	:
-
-    stringy	, ""a\\""
-    : 
-Header
-255
-    :
-	calculatedFrom 
-        //	t
-, 
-    // a // b
-		/// triple
-[	007// " ++ [27880; 37322]%N ++ runes_of_ascii "
-
-  ] :
-/// triple
-    	//x
-	MetaDataX
-,	""a\""b"" 
-
-    //	t
-://
-    	stringy 	 // " ++ [128512]%N ++ runes_of_ascii " emoji
-	  ,
-}
-    ,	char[ 007
+    char[
+    3 // @lengthOf(
 ]
-int@lengthOf(o) `" ++ [233]%N ++ runes_of_ascii "`  // `tick` ""quote"" 'q'
-	, 
+Header, msg_type metadata`two words`
+    , leftPad
+    body `crlf
+line`
+,
+string_ ,
+    stringy
+    { repeat metadata  {  repeat
     // trailing space 
-		//x
-  } , @leftPad
-	(
-	    //
-
-// @lengthOf(
-)
-@lengthOf(
-
-    metadata
-) match asx	as
-leftPad
-	{
-
-    ""x y""	:
-    matchKey// packet A { u8 x, }
-	}  // " ++ [27880; 37322]%N ++ runes_of_ascii "
-
-	,
-	repeat leftPad
-`say ""hi""`
-    , char[ //	t
-	65535 	 // c
-
-] // a // b
-  Packet 
-,	}
-
-root packet // a // b
-
-x_y_z
-
-{
-	match
-	uint8x
-as
-
-    As {
-
-[ 
-0123456789  ]:
-    T
-    65535  :
-    x_y_z""\n""
-    //
-
-:
-    u
-,
-
-4294967296 :
-
-Packet
-	[
-    65535
-    ]: T
-    , 
-255	:
-
-uint8x	}
-,
-int32
-Packet
-`tab	here`,
-@calculatedFrom(  """" ) 
-@calculatedFrom(""a\\""	)
-
-u64 repeatCount  @calculatedFrom(
-"""" 
-)
-
-,	Header
-zchar  `doc`
-,  match
-	_x
-as
-
-metadata	// " ++ [128512]%N ++ runes_of_ascii " emoji
-	{
-
-[255
-    ,  ""1""
-    ] :  Logon
-[ 
-""" ++ [233]%N ++ runes_of_ascii "t" ++ [233]%N ++ runes_of_ascii """  , 
-00
-    ,65535 
-,
-
-    7, 42
-,
-
-00
-
-] :
-packetx, 4294967296	:  stringy
-        //	t
-  	,
-}
-
-, char[ 00
-
-    ]tag`doc`
-    ,@lengthOf(  int
-)
-
-    string  u ,  @tag(007 ) int16 
-stringy , float64 crc
-,	@calculatedFrom(""x y""
-)
-repeat 
-u16	f32a,} 
-options { u128
-
-= 
-""CRC32""
-
-    options1
-	=// packet A { u8 x, }
-  false 
-u8x
-=  ""`tick`"";
-
-    }
-
-")).
-Eval vm_compute in ("<<<M266>>>" ++ check (runes_of_ascii "packet asx { Logon{ body
-@calculatedFrom( // trailing space 
-""it's"" ) , // @lengthOf(
-char[ 3] MetaDataX , string
-    leftPad `crlf
-line` , u128@calculatedFrom( ""packet""
-    ),} , } //x
-packet
-x_y_z
-    // packet A { u8 x, }
-    { len {
-    match leftPad// c
-as
-rootA {[007 // trailing space 
-, ""a\\"" , 0123456789,
-    ""\" ++ [233]%N ++ runes_of_ascii """ , ""`tick`"" , ""{,}""
-    ] : falsey , 4294967296:	matchKey
+    lengthOf ,}
 , // packet A { u8 x, }
 }
-    , int32 //	t
-Z9_ // " ++ [27880; 37322]%N ++ runes_of_ascii "
-,a1
+    ,
+@lengthOf(	stringy ) u128@calculatedFrom( """ ++ [28040; 24687]%N ++ runes_of_ascii """  ), @calculatedFrom( ""a	b"") match crc
+    as a1 { 42
+    :
+    Header , 3	: tag [ ""CRC32"" , ""packet""
+]: f32a // packet A { u8 x, }
+[ """ ++ [28040; 24687]%N ++ runes_of_ascii """, ""abc"" ,
+65535 ,""" ++ [128512]%N ++ runes_of_ascii """ , 10
+] :
+pack, }
+,zchar[ 10 ] calculatedFrom
+    @calculatedFrom( ""\" ++ [233]%N ++ runes_of_ascii """
+// " ++ [27880; 37322]%N ++ runes_of_ascii "
+// " ++ [27880; 37322]%N ++ runes_of_ascii "
+) `
+` , } root packet falsey
+    { @calculatedFrom( """ ++ [128512]%N ++ runes_of_ascii """ )
+@lengthOf( falsey )
+int @calculatedFrom( ""{,}"") ,
+repeat matchKey f32a`{ , }` ,
+    float64
+    crc `doc`	, @calculatedFrom(""" ++ [128512]%N ++ runes_of_ascii """ )  matchKey  @calculatedFrom( """" )`u8 x,` ,	A , // c
+string Z9_ @lengthOf(x //	t
+) `u8 x,`	, zchar  @lengthOf(
+rootA
+)
+`// not a comment` ,	options1 @lengthOf( packetx )  `a\`, // " ++ [128512]%N ++ runes_of_ascii " emoji
+@lengthOf(leftPad) repeat u32 //
+A,
+} packet	Pad { @calculatedFrom( ""a\\"")
+    // trailing space 
+    @tag(
+    65535)	@lengthOf(
+u128
+    ) f64 x
+    `u8 x,`,@lengthOf( x_y_z )string	stringy @lengthOf(
+    string_ )	,metadata
+{match body  as rootA { 0  : o
+,255 : uint8x // @lengthOf(
+, [10 ]	: crc ,007
+:msg_type
+} //x
+,} , msg_type
+    @lengthOf(msg_type
+    )	, @leftPad ( '0' )lengthOf @lengthOf( //	t
+As ) `// not a comment` //
+, /// triple
+repeat
+    zchar[1
+    ] rootA  `// not a comment`
+, @tag(	10  )
+@leftPad( ) @lengthOf( stringy ) repeat body { // a // b
+i8i8	@calculatedFrom( ""a	b""/// triple
+)
+    ,
+    // " ++ [128512]%N ++ runes_of_ascii " emoji
+    _x, repeat u8 Packet,
+    } , i32 Logon , } packet// 50% %s
+calculatedFrom { float32 rootA
+`say ""hi""`
+, } root packet packetx{ @tag( 3 )
+    asx ,len { tag { repeat zchar[  0123456789]stringy`` , }
+    /// triple
+    ,Z9_ `
+`
+, Foo , repeat u8x
+`// not a comment`
+, } ,int64
+body
+    // 50% %s
+    @calculatedFrom( ""a\\"" ) `it's` ,}")).
+Eval vm_compute in ("<<<M835>>>" ++ check (runes_of_ascii "// trailing space 
+packet a1 {string BodyLength @lengthOf( leftPad ) ,	int8 u128 @calculatedFrom(""1"") `it's`
+    ,
+@calculatedFrom( ""CRC32"" // " ++ [128512]%N ++ runes_of_ascii " emoji
+) @rightPad
+( )	repeat Z9_
+, @calculatedFrom(
+""" ++ [128512]%N ++ runes_of_ascii """
+) char[] metadata
+@calculatedFrom( //x
+""a\""b"" )
+, repeat
+    msg_type u128 , @tag(
+    255)  @leftPad ( )@lengthOf( f32a) repeat
+    // " ++ [128512]%N ++ runes_of_ascii " emoji
+    o , repeat i8i8 { repeat f32a float `// not a comment` ,
+repeat char[ 0123456789 ] pack`{ , }`,A  `" ++ [28040; 24687; 31867; 22411]%N ++ runes_of_ascii "` , } , lengthOf { i64
+    // 50% %s
+    Foo ,}, // trailing space 
+pack lengthOf ,
+    } packet repeatCount // trailing space 
 {
-    x_y_z ,
-    repeat	_x `doc` , char[]falsey
-    @lengthOf(u128) `doc` ,
-    }/// triple
-,match Foo as
-stringy {7 : asx // " ++ [128512]%N ++ runes_of_ascii " emoji
-, ""x y""	:
-    calculatedFrom
-, }
-    , }, @lengthOf(i64_ ) @rightPad ( /// triple
-'\x00'// @lengthOf(
-)@tag( 42 )  char[]
-repeatCount ,
-match	Z9_ //x
-as  int {[//x
-""a	b"" ,	""abc""
-    , 255 , 7 // " ++ [128512]%N ++ runes_of_ascii " emoji
-] :asx
-""1"" : chars , [ ""a	b"", 00 ,4294967296 ] :
-leftPad , [
-65535
-, //x
-0 , //	t
-""abc"" // a // b
-, ""it's"", 007 ,
-    ""x y"" ,
-    255,3 ]  :
-leftPad
-    , [
-    //x
-    4294967296]: u
+T `// not a comment`, @tag(
+    00 ) leftPad
+Packet
+`100% of %d` ,char[0123456789  ] charz
+    @calculatedFrom(""a\""b"") ,@lengthOf(Header ) f32a	{u128 @calculatedFrom("""") `// not a comment` /// triple
+,T@calculatedFrom( ""a\""b"" ) , int32 lengthOf	@lengthOf( msg_type // `tick` ""quote"" 'q'
+) , Foo@calculatedFrom( ""a\""b""
+    )	, }
+,a1
+    { i16 x @calculatedFrom( ""a\\"" ) `{ , }` , match i8i8 as packetx { 00
+: // " ++ [128512]%N ++ runes_of_ascii " emoji
+As ,
+    //
+    0 // `tick` ""quote"" 'q'
+: packetx 3
+: // trailing space 
+A
 ,
-// " ++ [128512]%N ++ runes_of_ascii " emoji
-// " ++ [128512]%N ++ runes_of_ascii " emoji
-0123456789 :a1  } ,
-x_y_z  u8x ,  asx{ repeat
-Header float `crlf
+} ,// 50% %s
+packetx
+Pad, },
+@lengthOf(int
+    )match leftPad as	tag
+    //
+    { ""1""
+:
+// c
+//x
+matchKey
+    ,  } ,
+    }
+    // " ++ [128512]%N ++ runes_of_ascii " emoji
+    options
+    { Packet = false ;
+chars
+= 00	; uint8x
+    =  false ;
+o=
+    00
+; tag
+= 7 ; } options { }
+packet trueish { @calculatedFrom(""" ++ [128512]%N ++ runes_of_ascii """ ) options1 @calculatedFrom( /// triple
+"""" ) `tab	here` ,
+u16 calculatedFrom
+@lengthOf( leftPad
+) `" ++ [233]%N ++ runes_of_ascii "`,match x_y_z as tag{
+    1 : trueish , } ,
+    string
+// c
+// c
+body @calculatedFrom(
+    ""x y""// c
+) , @calculatedFrom(
+// @lengthOf(
+//x
+""{,}""
+) char[ 1 ]Pad ,  Foo
+    Z9_,
+match  roots as asx //
+{ 255 :i8i8
+    }
+,
+    i16 repeatCount
+    //
+    , uint8 x , }
+")).
+Eval vm_compute in ("<<<M992>>>" ++ check (runes_of_ascii "packet u/// triple
+{
+@calculatedFrom( ""1"" ) match o as float{
+""x y""	:
+    u
+    , }
+    ,match packetx as
+    f32a {
+// a // b
+// c
+[ 4294967296 ,3] :
+x , 10
+: i8i8, """ ++ [233]%N ++ runes_of_ascii "t" ++ [233]%N ++ runes_of_ascii """ : _x [
+    // `tick` ""quote"" 'q'
+    ""a	b""
+, """ ++ [28040; 24687]%N ++ runes_of_ascii """
+    //	t
+    ,
+    ""1"",""a\\"" ,42 , 4294967296
+    , ""a	b""] :
+    Header ,//
+65535 : i8i8 , 0123456789 :repeatCount ,
+    }
+    ,
+repeat
+stringy { //	t
+char[	0
+]
+Logon	`100% of %d`, repeat i8i8
+Packet `crlf
 line`
-    , rootA
-charz// " ++ [128512]%N ++ runes_of_ascii " emoji
-`a\` , } , @calculatedFrom(""CRC32"" ) string string_
-,  @tag(
-65535 )  @rightPad ( '\x00' ) u8x	a1 `{ , }` , } options { // c
-float = // " ++ [27880; 37322]%N ++ runes_of_ascii "
-007 }
-root // c
-packet
-metadata {
+    ,repeatCount {
+    match asx
+    as calculatedFrom { 0123456789
+    : float ,
+} ,
+len {
+    repeat x_y_z , uint16 metadata , }  , leftPad  @calculatedFrom( ""a\""b"" //
+) , } , repeat i64
+    BodyLength
+,} , i8
+options1 ,//x
+options1 , @leftPad // trailing space 
+(
+    // c
+    ' '
+) @tag( 65535 ) @leftPad
+    (
+) BodyLength MetaDataX `" ++ [28040; 24687; 31867; 22411]%N ++ runes_of_ascii "`
+// packet A { u8 x, }
+//	t
+,  f64 metadata// 50% %s
+, string u @lengthOf(As //x
+) ,
+    // " ++ [128512]%N ++ runes_of_ascii " emoji
+    }packet x_y_z {
+len o
+, match
+string_
+    as
+    Foo
+{
+    //
+    [ 255 , """ ++ [233]%N ++ runes_of_ascii "t" ++ [233]%N ++ runes_of_ascii """ , 255
+    // " ++ [27880; 37322]%N ++ runes_of_ascii "
+    , 007  ,
+""a\""b"" ,
+    // @lengthOf(
+    ""abc""]
+:a1 , ""CRC32"":
+matchKey }	,//	t
+@lengthOf(// " ++ [27880; 37322]%N ++ runes_of_ascii "
+int
+)//
+@calculatedFrom(""1"" ) @calculatedFrom( ""it's""
+) char[
+0 ]
+    matchKey @calculatedFrom( ""`tick`""
+) ,
+match a1 as Z9_ { [ ""CRC32""
+    , 65535 ] :  x[	0123456789 , """ ++ [233]%N ++ runes_of_ascii "t" ++ [233]%N ++ runes_of_ascii """
+    ] :
+// 50% %s
+//	t
+packetx ,""packet"" : // " ++ [27880; 37322]%N ++ runes_of_ascii "
+msg_type// " ++ [128512]%N ++ runes_of_ascii " emoji
+, 10: o , }
+    ,@lengthOf( repeatCount ) f32
+    As
+    ,@tag( 3 )
+string_ ,
+    }")).
+Eval vm_compute in ("<<<M826>>>" ++ check (runes_of_ascii "
+options { BodyLength
+    =7 ; len=string As =char[ 7 ] ;
+    } options // c
+{	} root packet zchar {
+    @rightPad( ' '
+)
+    char[]zchar @calculatedFrom(
+""a\\""
+), zchar[/// triple
+7
+] i64_ , @lengthOf(  u8x )
+    /// triple
+    @lengthOf( i8i8)
+body @lengthOf( body ) , roots{ match string_ as Z9_{""" ++ [128512]%N ++ runes_of_ascii """	: body  ,10 /// triple
+:matchKey , 0123456789 :packetx
+,[""packet"" ,  ""abc"" , ""CRC32"" ,  0 ,
+1 , 0123456789 ] :Header, 65535
+    //
+    :
+    lengthOf , }	, }
+    ,
+@calculatedFrom( """")match
+float  as calculatedFrom
+    {// 50% %s
+""" ++ [128512]%N ++ runes_of_ascii """ :	Logon [ 3 , 65535	] :options1 , ""a\\""	:
+    Foo } ,Logon//
+,match o as calculatedFrom//
+{
+3 : uint8x }
+, rootA repeatCount ,// c
+options1  { f32
+    // `tick` ""quote"" 'q'
+    crc	,
+    char[]MetaDataX , repeat
+    // packet A { u8 x, }
+    zchar[ 3 ] Header`line1
+line2` , body {
+    repeat Packet ,
+Header
+{char[] float @calculatedFrom( ""\" ++ [233]%N ++ runes_of_ascii """) `" ++ [233]%N ++ runes_of_ascii "`	,
+match zchar as matchKey { [	""CRC32""
+    ]: Foo ,
+    // @lengthOf(
+    """ ++ [233]%N ++ runes_of_ascii "t" ++ [233]%N ++ runes_of_ascii """ :	BodyLength , 0123456789 :crc ,""it's""
+: stringy ,
+    ""a\\"" :
+    asx
+,
+} , u64 leftPad  @calculatedFrom(""`tick`"" ),
+// 50% %s
+// c
+packetx , } ,
+f64 crc , zchar[	65535]zchar
+, } , // a // b
+},
+    @calculatedFrom( // `tick` ""quote"" 'q'
+""// no comment"" ) u64 i8i8
+, }
+    // " ++ [27880; 37322]%N ++ runes_of_ascii "
+    MetaData
+    u128
+    // c
+    {
+} 	 ")).
+Eval vm_compute in ("<<<M450>>>" ++ check (runes_of_ascii "root packet float {@calculatedFrom( """ ++ [128512]%N ++ runes_of_ascii """ )float32  T , match T as
+    // " ++ [27880; 37322]%N ++ runes_of_ascii "
+    msg_type { 65535 :
+body ""\" ++ [233]%N ++ runes_of_ascii """: body
+    1
+: u128 7:x, [ ""// no comment""]	: BodyLength
+} , zchar[7 ]
+As
+@lengthOf( body ) `" ++ [28040; 24687; 31867; 22411]%N ++ runes_of_ascii "` // 50% %s
+,match
+u128 as // c
+body  { 255 : stringy
+,//	t
+} , match rootA as// a // b
+_x {
+    // " ++ [128512]%N ++ runes_of_ascii " emoji
+    ""{,}"" : crc, 42 // trailing space 
+:
+    // trailing space 
+    T	,	} , body
+    A
+    `two words`,string matchKey  `{ , }`  , options1 Foo,repeat
+    f32 o , string
+rootA`" ++ [28040; 24687; 31867; 22411]%N ++ runes_of_ascii "`
+,
+    } options //x
+{ u8x =
+    string; //
+Pad = true ; asx= ""a\""b""} root packet zchar { repeat//	t
+options1{ char[ 42 ]trueish
+@calculatedFrom( ""a\""b""
+)
+    ,	char[00
+    ]  A@calculatedFrom( ""it's""
+// a // b
+// " ++ [128512]%N ++ runes_of_ascii " emoji
+)
+    , match
+    falsey as
+calculatedFrom
+    // @lengthOf(
+    {
+    ""{,}""  :
+    As[ ""// no comment"" ] : Pad , [
+00 , ""1""
+    // c
+    ,
+""packet"" , 00 , ""abc"" ]:chars	}, repeat  msg_type `
+`
+    ,
+    // 50% %s
+    } // packet A { u8 x, }
+,@calculatedFrom( ""CRC32""	) repeat u64	u8x `line1
+line2` ,
+    @tag( 42 ) char[ 7 ] _x  `" ++ [233]%N ++ runes_of_ascii "`
+, }options{
+Foo
+//	t
+// packet A { u8 x, }
+= false ;
+} MetaData A
+    {	zchar _x // 50% %s
+, // `tick` ""quote"" 'q'
 }
 ")).
-Eval vm_compute in ("<<<M1966>>>" ++ check (runes_of_ascii "root packet x_y_z {
-    match Z9_ as u {
-        255 : pack,
-        255 : u128,
-        007 : float,
-        ""\n"" : options1,
-        [""" ++ [28040; 24687]%N ++ runes_of_ascii """, 1] : Z9_,
-        """ ++ [28040; 24687]%N ++ runes_of_ascii """ : chars,
-    },
-    u8 _x @calculatedFrom(""" ++ [28040; 24687]%N ++ runes_of_ascii """) `say ""hi""`,
-    @tag(3)
-    match a1 as msg_type {
-        [""\n"", 255, 0] : crc,
-    },
-}
+Eval vm_compute in ("<<<M747>>>" ++ check (runes_of_ascii "packet  len
+{ repeat // `tick` ""quote"" 'q'
+Pad{match A as x
+    /// triple
+    {
+[""1"" , 42 , 0123456789
+    ,
+""abc"" ,
+""it's""// c
+,
+""" ++ [233]%N ++ runes_of_ascii "t" ++ [233]%N ++ runes_of_ascii """ ,
+7 ,
+// 50% %s
+// @lengthOf(
+10 ]  :calculatedFrom 0 : len } ,
+    int8
+string_ , // a // b
+repeat repeatCount , } , f64	As
+    ,zchar[	7
+] x `" ++ [233]%N ++ runes_of_ascii "`
+//	t
+// @lengthOf(
+,
+@calculatedFrom(
+    //x
+    ""a\\"" ) Header{
+//x
+/// triple
+repeat char[ 255 // c
+]  metadata,	pack@lengthOf(
+T) , }
+, } packet T {	float64  u8x	`// not a comment`,
+    match u128 as
+roots // " ++ [128512]%N ++ runes_of_ascii " emoji
+{
+[ """ ++ [128512]%N ++ runes_of_ascii """ ]
+: msg_type ,  ""\n"" : u8x
+00  : crc } , u16 lengthOf
+@calculatedFrom(
+    """ ++ [233]%N ++ runes_of_ascii "t" ++ [233]%N ++ runes_of_ascii """)
+    ,@tag( 1 )	zchar[
+7 ] falsey
+`doc`  ,char[]
+    metadata	, Packet @calculatedFrom( ""`tick`"" ) , //	t
+@tag( // c
+42 ) A ,
+// " ++ [128512]%N ++ runes_of_ascii " emoji
+// packet A { u8 x, }
+Packet
+@calculatedFrom( ""{,}"") , }
+options{ Pad
+    = false
+    T =
+'\x00' // trailing space 
+;asx = false; _x =""\" ++ [233]%N ++ runes_of_ascii """ ;} packet float {	uint8x{ repeatCount ,
+u32 lengthOf@calculatedFrom(	""a	b""
+    ) `" ++ [233]%N ++ runes_of_ascii "` ,
+i16 u, } ,}
+root packet Foo {match asx as Foo
+{ [""" ++ [128512]%N ++ runes_of_ascii """ ,
+""1""] :roots
+    ,
+    ""`tick`""
+    :
+    a1  , 0123456789 :string_ , } , }
+")).
+Eval vm_compute in ("<<<M4068>>>" ++ check (runes_of_ascii "packet T{ 
+repeat 
+string
 
-root packet o {
-    match tag as _x {
-        007 : x,
-        10 : charz,
-        ""{,}"" : body,
-        """ ++ [233]%N ++ runes_of_ascii "t" ++ [233]%N ++ runes_of_ascii """ : len,
-        """ ++ [128512]%N ++ runes_of_ascii """ : u,
+options1
+	,	@lengthOf( Packet
+	)
+@calculatedFrom(""" ++ [128512]%N ++ runes_of_ascii """
+
+    )
+    @lengthOf(
+repeatCount	) 
+u64
+    asx 
+,
+    @leftPad
+    ('\x00'
+	)  x 
+
+// c
+  // a // b
+{	// c
+  	string 	 // trailing space 
+	a1
+`tab	here` ,
+	repeat
+
+pack Header
+/// triple
+	//x
+  	, match 
+packetx	as rootA 	 //
+    {
+
+    3 :chars ,
+    }
+,
+}
+	,falsey
+    @lengthOf( matchKey
+    )  `line1
+line2`
+	,
+
+@calculatedFrom(
+""`tick`"" 
+)
+@calculatedFrom(
+""1""
+)char[ 00 ]u128
+
+@lengthOf( a1
+)
+	,
+    @lengthOf(
+    lengthOf
+    // `tick` ""quote"" 'q'
+    )@rightPad	( 
+// packet A { u8 x, }
+	'0' 	 /// triple
+    )
+
+@lengthOf(
+u128
+	)  rootA
+
+    ,
+} 
+	    // " ++ [128512]%N ++ runes_of_ascii " emoji
+    //	t
+	options  {	}
+
+packet 
+u128  {
+
+@tag(
+
+    3) @tag(
+
+255  )  @lengthOf( _x  ) char crc	`u8 x,`
+
+, repeat	matchKey repeatCount,
+
+    repeat T
+    `crlf
+line`  // trailing space 
+	,
+
+    char[]
+trueish  `
+` 
+,	} 
+options
+    // 50% %s
+
+  {
+
+Packet
+	=
+true 
+u128 	 /// triple
+= '0';
+    As = ""// no comment""
+; o =	false
+} 
+options {} 
+    /// triple
+")).
+Eval vm_compute in ("<<<M3596>>>" ++ check (runes_of_ascii "// `tick` ""quote"" 'q'
+packet a1 {
+    @calculatedFrom(""abc"")
+    chars `" ++ [28040; 24687; 31867; 22411]%N ++ runes_of_ascii "`,
+    match crc as metadata {
+        65535 : trueish,
+        ""\" ++ [233]%N ++ runes_of_ascii """ : charz,
+        ""abc"" : MetaDataX,
+        [
+            ""packet"", ""// no comment"", 0, 00, ""// no comment"",
+            ""{,}"", 00
+        ] : i64_,
+        """ ++ [233]%N ++ runes_of_ascii "t" ++ [233]%N ++ runes_of_ascii """ : f32a,
+        [""" ++ [128512]%N ++ runes_of_ascii """, ""it's""] : Foo,
     },
-    u64 u @calculatedFrom(""x y"") `it's`,
-    @lengthOf(trueish)
-    repeat uint8 u8x `" ++ [28040; 24687; 31867; 22411]%N ++ runes_of_ascii "`,
-    @calculatedFrom(""\n"")
-    @rightPad()
-    @leftPad('\x00')
-    repeat uint32 float,
-    @lengthOf(A)
-    @tag(0123456789)
     @rightPad(' ')
-    zchar[10] o,
-    uint8x @calculatedFrom(""a\\"") `
-        `,
-    body,
-    repeat char[10] string_ `tab	here`,
+    repeat char[1] body `" ++ [28040; 24687; 31867; 22411]%N ++ runes_of_ascii "`,
+    @calculatedFrom(""" ++ [233]%N ++ runes_of_ascii "t" ++ [233]%N ++ runes_of_ascii """)
+    repeat options1 i64_,
+    match roots as T {
+        [0, ""x y""] : uint8x,
+        """ ++ [128512]%N ++ runes_of_ascii """ : packetx,
+        ""packet"" : uint8x,
+        // packet A { u8 x, }
+        ""a	b"" : lengthOf,
+        4294967296 : repeatCount,
+    },
+    string options1 @calculatedFrom(""x y""),
+    int,
+    // c
+    o @calculatedFrom(""packet"") `say ""hi""`,
+    int a1,
+    string_ {
+        char[] Logon `say ""hi""`,
+        repeat float32 trueish,
+    },
 }
 
-root packet roots {
+options {
+    BodyLength = '0';
+    body = true;
+    i8i8 = ""packet""
 }
 
-packet u {
-    @calculatedFrom(""" ++ [128512]%N ++ runes_of_ascii """)
-    f64 Logon @calculatedFrom(""1"") `a\`,
-    int16 trueish `line1
-        line2`,//
-    zchar[0123456789] BodyLength `two words`,
-    float32 i8i8 @lengthOf(metadata) `// not a comment`,
-    i32 leftPad,
+packet zchar {
+    u16 Logon `a\`,
+}
+
+packet u128 {
 }")).
-Eval vm_compute in ("<<<M1516>>>" ++ check (runes_of_ascii "// top
-packet // c0a
-  // c0b
-P1 // c1
-{ u8 a // c4
-, // c5a
-  // c5b
-} packet // c7a
-  // c7b
-P2 // c8a
-  // c8b
-{ // c9
-P1 // c10
-, // c11a
-  // c11b
+Eval vm_compute in ("<<<M1165>>>" ++ check (runes_of_ascii "options { f32a	=
+' ' } packet // " ++ [128512]%N ++ runes_of_ascii " emoji
+metadata { @lengthOf(
+a1	)
+@calculatedFrom(  """ ++ [28040; 24687]%N ++ runes_of_ascii """) @rightPad ( '0' ) i64_ o `say ""hi""`
+, Packet @calculatedFrom(""packet"")
+,char[]
+    tag
+    , @calculatedFrom(
+    // " ++ [128512]%N ++ runes_of_ascii " emoji
+    ""a\""b"" ) match tag as BodyLength {
+    ""CRC32"" :
+asx ,10 : metadata ,
+    }, @tag( 7 ) @tag(7
+    ) @tag( 42
+    )Header { i64 // " ++ [27880; 37322]%N ++ runes_of_ascii "
+A //
+`two words`
+    , char[]Packet
+    , } , @calculatedFrom( """ ++ [28040; 24687]%N ++ runes_of_ascii """ ) @calculatedFrom( ""x y"" ) @tag( 3 )char[] Packet `tab	here`, @rightPad( '0' ) Packet, repeat Pad {match packetx
+    as charz
+// `tick` ""quote"" 'q'
+// c
+{
+//x
+//
+""a\""b"" :
+packetx [00 ,
+007 ,
+    ""1""
+    , ""it's""
+,""it's"" ]	: Packet ,
+    // " ++ [128512]%N ++ runes_of_ascii " emoji
+    ""\" ++ [233]%N ++ runes_of_ascii """: // `tick` ""quote"" 'q'
+repeatCount , [ """ ++ [233]%N ++ runes_of_ascii "t" ++ [233]%N ++ runes_of_ascii """	,
+007 , 10 ]:
+    // " ++ [128512]%N ++ runes_of_ascii " emoji
+    charz
+,  [ ""CRC32""  ] :roots ,}
+    ,  } ,@lengthOf( float  ) uint8x	,
 }
+    // " ++ [128512]%N ++ runes_of_ascii " emoji
+    options {
+len
+    = float64 ;
+    Header = '0'; Foo = string; i64_ =
+false ;}
+")).
+Eval vm_compute in ("<<<M3551>>>" ++ check (runes_of_ascii "options {
+}
+
+root packet float {
+    // 50% %s
+    @tag(3)
+    repeat char[65535] Logon `" ++ [28040; 24687; 31867; 22411]%N ++ runes_of_ascii "`,
+    int8 asx,
+    uint64 matchKey,
+    repeat zchar[0123456789] charz,
+    @rightPad()
+    match rootA as o {
+        ""abc"" : Header,
+        ""a	b"" : BodyLength,
+        ""a	b"" : repeatCount,
+        """ ++ [28040; 24687]%N ++ runes_of_ascii """ : _x,
+    },
+    @lengthOf(body)
+    match u8x as u128 {
+        0123456789 : lengthOf,
+        ""abc"" : A,
+        """" : Pad,
+        42 : i8i8,
+        ""a\""b"" : uint8x,
+        4294967296 : u128,
+    },
+    @lengthOf(int)
+    char[] matchKey,
+    uint16 pack `two words`,// trailing space 
+}
+
+options {
+    body = string;
+    repeatCount = ""it's""
+    BodyLength = i64
+    Foo = ""packet"";
+    lengthOf = u16
+}
+
+MetaData Pad {
+    MetaDataX o `a\`,
+    char u,
+    zchar[255] o,
+}// c
+
+options {
+    trueish = '0';
+    rootA = int64;
+    // trailing space 
+    // " ++ [128512]%N ++ runes_of_ascii " emoji
+    u = ""\n""
+}")).
+Eval vm_compute in ("<<<M1362>>>" ++ check (runes_of_ascii "root packet
+    uint8x {
+    } packet
+uint8x {} options // " ++ [128512]%N ++ runes_of_ascii " emoji
+{ Foo = ' ' u =
+char[]
+}
+// c
+// `tick` ""quote"" 'q'
+packet charz { char[] zchar
+`" ++ [233]%N ++ runes_of_ascii "`	, @calculatedFrom(
+    ""x y"" )
+string Logon , char[ 0
+// 50% %s
+//
+] crc @lengthOf(  float)`" ++ [233]%N ++ runes_of_ascii "` // @lengthOf(
+,// " ++ [27880; 37322]%N ++ runes_of_ascii "
+} root packet Header{i8 // trailing space 
+calculatedFrom
+@lengthOf( u128 ) , @tag(
+    //x
+    65535 )
+    repeat// `tick` ""quote"" 'q'
+zchar[	4294967296 ] tag
+//	t
+//x
+,@leftPad// " ++ [128512]%N ++ runes_of_ascii " emoji
+( '\x00'// packet A { u8 x, }
+) tag { match
+    // c
+    repeatCount
+as charz{ 0123456789  :
+asx , }
+,
+f32	string_/// triple
+`
+` //
+,
+}, uint32 matchKey, i32// c
+leftPad	@calculatedFrom(""1"") `it's` , _x
+{f32a @calculatedFrom(
+""`tick`"") , char metadata
+    `a\`
+    , repeat uint16// a // b
+float
+    `" ++ [233]%N ++ runes_of_ascii "`// " ++ [128512]%N ++ runes_of_ascii " emoji
+, } ,@lengthOf( A ) zchar[ 0123456789 ]
+Header@lengthOf(o )`
+` ,	}
+")).
+Eval vm_compute in ("<<<M3453>>>" ++ check (runes_of_ascii "options {
+    LittleEndian = true;
+    StringPrefixLenType = u32;
+    ArrayPrefixLenType = u32;
+    FixedStringPadChar = ' ';
+}
+packet Party {
+    char[12] tag7,
+    repeat InMsgkind99 {
+        repeat i32 Side2,
+        repeat char[6] Qty,
+        zchar[6] Ref,
+        zchar[8] Px,
+        i64 msgKind,
+        uint64 lastPx,
+    },
+}
+root packet Trade {
+    repeat InTag752 {
+        Party,
+        zchar[8] venue,
+        repeat InFlags40 {
+            zchar[6] sym,
+        },
+        repeat InCount33 {
+            zchar[8] Qty,
+            int64 venue,
+            u64 Acct,
+            u16 OrderId,
+        },
+        repeat InSeqno96 {
+            repeat Party,
+            f64 msgKind,
+        },
+        f32 Px,
+    },
+    u8 venue,
+    match venue as Body {
+        0 : Party,
+    },
+}
+")).
+Eval vm_compute in ("<<<M3836>>>" ++ check (runes_of_ascii "packet charz {
+    // a // b
+    @rightPad()
+    @tag(007)
+    @tag(255)
+    repeat _x {
+        crc @lengthOf(u) `doc`,
+        u16 x,
+    },
+    match u128 as As {
+        10 : x_y_z,
+    },
+    zchar[007] int @calculatedFrom(""" ++ [233]%N ++ runes_of_ascii "t" ++ [233]%N ++ runes_of_ascii """),
+    match tag as float {
+        // c
+        [""" ++ [28040; 24687]%N ++ runes_of_ascii """, """ ++ [28040; 24687]%N ++ runes_of_ascii """] : leftPad,
+        """ ++ [128512]%N ++ runes_of_ascii """ : repeatCount,
+        10 : stringy,
+        // " ++ [27880; 37322]%N ++ runes_of_ascii "
+        ""\n"" : msg_type,
+        1 : float,
+        [""{,}""] : i64_,
+    },
+    @lengthOf(u128)
+    @tag(007)
+    match f32a as string_ {
+        // `tick` ""quote"" 'q'
+        0 : i8i8,
+    },
+    uint64 falsey,
+}
+
+MetaData Foo {
+    u16 T,
+    crc tag,
+    A falsey `{ , }`,
+}
+
+packet float {
+}
+
+MetaData rootA {
+    _x x,
+    char[10] options1,
+    pack x_y_z,
+    char[] u128,
+    uint32 Pad,
+}")).
+Eval vm_compute in ("<<<M4124>>>" ++ check (runes_of_ascii "root packet packetx {
+    @calculatedFrom(""`tick`"")
+    // packet A { u8 x, }
+    //
+    @tag(255)
+    @calculatedFrom(""a	b"")
+    repeat f64 stringy,
+    repeat Z9_ repeatCount `" ++ [233]%N ++ runes_of_ascii "`,
+    // trailing space 
+    // packet A { u8 x, }
+    repeat float64 int `100% of %d`,
+    zchar[0123456789] MetaDataX @lengthOf(crc),// " ++ [128512]%N ++ runes_of_ascii " emoji
+    trueish {
+        Logon,
+        i32 matchKey `doc`,
+        f64 float `// not a comment`,// trailing space 
+        i64 Z9_ @calculatedFrom(""// no comment""),
+    },
+    @lengthOf(BodyLength)
+    repeat u128 {
+        u128,
+        falsey repeatCount,
+    },
+    match stringy as a1 {
+        42 : BodyLength,
+        [4294967296, 0123456789] : len,
+        [""packet"", """ ++ [233]%N ++ runes_of_ascii "t" ++ [233]%N ++ runes_of_ascii """] : Pad,
+        3 : stringy,
+    },
+}")).
+Eval vm_compute in ("<<<M3333>>>" ++ check (runes_of_ascii "// top
+options
+    // c0
+{
+    // c1
+msg_type
+    // c2
+=
+    // c3
+255
+    // c4
+o
+    // c5
+=
+    // c6
+'\x00'
+    // c7
+;
+    // c8
+x_y_z
+    // c9
+=
+    // c10
+""abc""
+    // c11
+;
     // c12
-packet
+int
     // c13
-P3 // c14a
-  // c14b
-{ // c15
-P2 // c16a
-  // c16b
-,
+=
+    // c14
+00
+    // c15
+;
+    // c16
+body
     // c17
-P1
+=
     // c18
-, // c19
-} // c20a
-  // c20b
-packet // c21a
-  // c21b
-P4 {
+""\" ++ [233]%N ++ runes_of_ascii """
+    // c19
+;
+    // c20
+}
+    // c21
+MetaData
+    // c22
+BodyLength
     // c23
-repeat // c24a
-  // c24b
-P3
+{
+    // c24
+repeatCount
     // c25
-,
+metadata
     // c26
-P2 // c27
+`a\`
+    // c27
 ,
     // c28
-}
+f64
     // c29
-root
+float
     // c30
-packet // c31a
-  // c31b
-P5 // c32
-{ // c33a
-  // c33b
-P4 // c34a
-  // c34b
-, // c35a
-  // c35b
-P3 // c36
-, // c37
-P1 // c38
-, // c39
-u8 // c40
-K , match // c43a
-  // c43b
-K // c44a
-  // c44b
-as
-    // c45
-Body // c46a
-  // c46b
-{ // c47a
-  // c47b
-4
-    // c48
-: // c49
-P4 // c50
-, // c51a
-  // c51b
-3 // c52a
-  // c52b
-: // c53a
-  // c53b
-P3 // c54a
-  // c54b
-, // c55a
-  // c55b
-2
-    // c56
-:
-    // c57
-P2 // c58
-, 1
-    // c60
-: // c61
-P1
-    // c62
-, // c63
-} , }
-    // c66
-")).
-Eval vm_compute in ("<<<M1621>>>" ++ check (runes_of_ascii "packet A {
-    @lengthOf(lengthOf)
-    int16 packetx @calculatedFrom(""1""),
-    repeat u64 Packet `
-        `,
-    match trueish as roots {
-        3 : A,
-        ""x y"" : BodyLength,
-        42 : Foo,
-    },
-}
-
-packet As {
-    msg_type @lengthOf(u),
-}
-
-root packet zchar {
-    i8i8 i8i8 `
-        `,
-    zchar {
-        int8 Foo `a\`,
-    },
-    f32 pack @lengthOf(crc),
-    @calculatedFrom(""{,}"")
-    // " ++ [27880; 37322]%N ++ runes_of_ascii "
-    match crc as roots {
-        65535 : int,
-        ""packet"" : float,
-        00 : zchar,
-        [""x y""] : options1,
-        ""it's"" : x,
-    },
-    @lengthOf(Packet)
-    match x as As {
-        //	t
-        0 : lengthOf,
-        //	t
-        3 : pack,
-        ""it's"" : x_y_z,
-        ""a\""b"" : metadata,
-    },
-    uint16 i8i8,
-}// a // b")).
-Eval vm_compute in ("<<<M1893>>>" ++ check (runes_of_ascii "// top
-    packet
-	// c0
-Logon 	 // c1
-	{
-string // c3
-
-user
-,// c5
-      }
-
-    root  // c7
-packet// c8
-	Frame {
-    u8
-    K// c12
-	,
-    // c13
-  match 
-// c14
-K  // c15a
-	// c15b
-	as
-    // c16
-  	Body	// c17
-
-{  // c18a
-    // c18b
-  1: 
-        // c20
-
-Logon 	 // c21a
-    // c21b
-    ,// c22
-    2 // c23
-	  :
-
-Logout 
-// c25
-    , 	 // c26
-    } // c27a
-	// c27b
-      , 	 // c28a
-// c28b
-Tail // c29a
-  // c29b
-	,  // c30
-	}
-
-    packet  
-  // c32
-
-  Logout  // c33
-{	// c34a
-	// c34b
-
-	u16 
-        // c35
-
-	reason	// c36
-    , // c37a
-// c37b
-  }	packet Tail // c40
-  {
-	// c41
-    u32	// c42
-		crc 
-
-// c43
-,}
-")).
-Eval vm_compute in ("<<<M1528>>>" ++ check (runes_of_ascii "// top
-packet // c0
-u128 // c1a
-  // c1b
-{ u8 // c3
-a // c4a
-  // c4b
+`tab	here`
+    // c31
 ,
-    // c5
-} // c6a
-  // c6b
-root // c7a
-  // c7b
-packet // c8a
-  // c8b
-Msg // c9
-{ // c10a
-  // c10b
-u8 // c11a
-  // c11b
-k // c12a
-  // c12b
-,
-    // c13
-u24 // c14
-{ u8 // c16a
-  // c16b
-Hi
-    // c17
-, // c18
-u16 Lo
-    // c20
-,
-    // c21
-}
-    // c22
-, // c23
-repeat
-    // c24
-i24
-    // c25
-{ // c26a
-  // c26b
-u32 // c27
-q // c28a
-  // c28b
-, // c29
-} , // c31
-u128
     // c32
-, // c33a
-  // c33b
-u16
+zchar[
+    // c33
+4294967296
     // c34
-float32x
-    // c35
-, string // c37a
-  // c37b
-s // c38
-, }
-    // c40
-")).
-Eval vm_compute in ("<<<M334>>>" ++ check (runes_of_ascii "
-packet a1
-    /// triple
-    { uint8 As ,// `tick` ""quote"" 'q'
-char[ 1] chars
-    @lengthOf(
-    msg_type )  , repeat char[ 1 ] x_y_z `two words`
-    //x
-    , // c
-@tag(00
-)
-int32
-i8i8
-    , u64 trueish ,
-    // @lengthOf(
-    @lengthOf(
-    body )int16 float @lengthOf( tag )
-    , // " ++ [128512]%N ++ runes_of_ascii " emoji
-x // trailing space 
-@calculatedFrom( ""`tick`""	) ,
-} MetaData x_y_z
-    {	char[
-10
-    ]chars,Z9_ pack`
-`  ,  string As
-, //x
-len
-    int ,A Z9_  , }	options { o = 0123456789 ; _x	= ' '
-;
-}")).
-Eval vm_compute in ("<<<M43>>>" ++ check (runes_of_ascii "
-packet A
-{ repeat lengthOf {
-len ,
-    } , @tag(// trailing space 
-42	) match Header
-    as falsey
-{ [
-""" ++ [128512]%N ++ runes_of_ascii """//
-, ""\n"", 4294967296 ]
-    : Packet
-1 :	falsey,
-""\" ++ [233]%N ++ runes_of_ascii """ // " ++ [128512]%N ++ runes_of_ascii " emoji
-:
-    charz } , zchar[255
 ]
+    // c35
+metadata
+    // c36
+`" ++ [233]%N ++ runes_of_ascii "`
+    // c37
+,
+    // c38
+zchar[
+    // c39
+255
+    // c40
+]
+    // c41
+float
+    // c42
+,
+    // c43
+}
+    // c44
+")).
+Eval vm_compute in ("<<<M1019>>>" ++ check (runes_of_ascii "MetaData float { string Packet,} options
+    //	t
+    {
+asx //	t
+=
+""\n""
+    } options { repeatCount= """"; _x =
+    zchar[ 007 // packet A { u8 x, }
+] ;uint8x =
+    u64 }
+packet options1{i8 Pad , uint32 roots @calculatedFrom( ""// no comment"") `doc`, char[] rootA , match crc
+as
+//
+// c
+u { 0 :chars
+    , 42 :
+    packetx
+,
+// @lengthOf(
+// trailing space 
+} ,
+@tag(	0
+) int8 u128,
+string
+    pack`u8 x,`, Header @calculatedFrom(
+""1"" ) ,  @tag( 10
+)
+u
+, i16
+u128
+    ,
+    // trailing space 
+    @calculatedFrom( ""\n"" ) //	t
+@rightPad ( '0' ) repeat zchar  msg_type	`{ , }` ,
+}MetaData
+    i8i8// @lengthOf(
+{u8
+    leftPad `crlf
+line`
 // packet A { u8 x, }
-// trailing space 
-rootA , repeat  char[ 10 ]// `tick` ""quote"" 'q'
+//	t
+, } 	 ")).
+Eval vm_compute in ("<<<M3749>>>" ++ check (runes_of_ascii "
+
+  MetaData
+	Logon{
+pack
+roots
+    `{ , }`
+,
+} 
+packet 
+x // `tick` ""quote"" 'q'
+	{  } 
+options{// packet A { u8 x, }
+
+}
+
+packet
+
+    crc  
+      //
+	  // trailing space 
+  { repeat u64	roots
+
+    `say ""hi""`	,zchar[
+	007  ]repeatCount @lengthOf(
+trueish  // " ++ [128512]%N ++ runes_of_ascii " emoji
+    	) 
+,	@tag(
+    0 
+)	charz 
+{
+
+    A{
+a1
+falsey
+
+,
+
+    } , 
+match As
+
+    as
 f32a
-// trailing space 
-//x
-,@calculatedFrom(  ""// no comment"") char[ 00 ]trueish@calculatedFrom(
+{
+42
+    :u8x,
+} ,
+
+Logon @calculatedFrom( 
+""""	) 
+`100% of %d`
+    , 
+} ,
+falsey
+
+@calculatedFrom(
+
+    ""x y""
+	),repeat
+    char[	//
+    65535
+    // `tick` ""quote"" 'q'
+  ]
+    rootA`
+`  ,
+
+@calculatedFrom(""`tick`"" 
+)  @calculatedFrom(  ""a	b""  )
+    repeat	zchar  zchar  , 
+}
+")).
+Eval vm_compute in ("<<<M4183>>>" ++ check (runes_of_ascii "packet	Header {repeat
+i64
+
+float	,  }
+    packet
+matchKey 
+{@tag(
+	00	)
+match u8x  as 
+pack
+// " ++ [128512]%N ++ runes_of_ascii " emoji
+
+{
+    1
+
+    : u 
+""a\\""
+
+    :string_,
+
+    0 :
+body  ,}  ,
+	@calculatedFrom(
+""// no comment""
+	)
+@rightPad (  '0')
+
+    @tag( 
+00 
+)	// a // b
+  int16  calculatedFrom
+	@lengthOf(	//x
+
+  pack
+
+    )
+
+    ,
+    repeat
+	char[] 
+x_y_z	,
+
+    } options	//	t
+	  { 	 //	t
+float
+    = // " ++ [128512]%N ++ runes_of_ascii " emoji
+char[]	roots
     // " ++ [27880; 37322]%N ++ runes_of_ascii "
-    ""a\""b"" )`line1
-line2` ,}")).
-Eval vm_compute in ("<<<M1434>>>" ++ check (runes_of_ascii "// top
+
+// a // b
+		=
+
+    '0';u
+	=	char
+    Packet
+=
+
+    0123456789  // @lengthOf(
+  ;
+    u8x// " ++ [27880; 37322]%N ++ runes_of_ascii "
+  	=""CRC32""
+
+    ;
+} root
+
+    packet
+
+    x{i16
+
+T
+    @lengthOf( 
+f32a) `" ++ [28040; 24687; 31867; 22411]%N ++ runes_of_ascii "`  ,}
+
+")).
+Eval vm_compute in ("<<<M1059>>>" ++ check (runes_of_ascii "options
+{
+uint8x = u8 ;  i64_ =
+""\n"" ; metadata=
+false ; tag  = """ ++ [233]%N ++ runes_of_ascii "t" ++ [233]%N ++ runes_of_ascii """
+; }
+packet body { i32 Pad //
+`crlf
+line`
+, @tag( 00
+) f32a // `tick` ""quote"" 'q'
+`
+`	,repeat // @lengthOf(
+crc	`u8 x,`	, repeat
+chars
+{ f32 BodyLength @lengthOf(
+    body ) ,
+} , char[ 255 ]Foo , @rightPad(
+'\x00'
+    ) @calculatedFrom( ""a\\"" ) repeat pack {
+    u128 {
+    T @calculatedFrom(
+""1"") , int32
+rootA, },a1 T
+,
+    char[
+    4294967296 ]	Packet@lengthOf(
+Header
+)
+    ,
+    Pad
+asx ,
+}	, @lengthOf(//	t
+u128// a // b
+) int64 A
+, } options	{charz= true ;
+    Pad
+    = ""it's""
+    ; }MetaData As {} packet float{ // c
+}
+")).
+Eval vm_compute in ("<<<M861>>>" ++ check (runes_of_ascii "packet len
+    // @lengthOf(
+    { tag { match
+_x	as // packet A { u8 x, }
+len { 255 : zchar ,
+} , }  , @calculatedFrom(
+""// no comment"" ) T@lengthOf(Z9_) ,repeat a1 { repeat string
+    leftPad `" ++ [233]%N ++ runes_of_ascii "` ,
+//	t
+//x
+char[]
+matchKey @lengthOf(
+    x_y_z )	`line1
+line2` , // " ++ [128512]%N ++ runes_of_ascii " emoji
+repeat char[0123456789	]
+matchKey ,} ,i64 calculatedFrom	@calculatedFrom(
+""\" ++ [233]%N ++ runes_of_ascii """ ) ,} packet BodyLength{ @calculatedFrom(""CRC32"" )
+@lengthOf( i8i8 )f32a @calculatedFrom( ""abc"")
+    ,	zchar[ // 50% %s
+42] body@lengthOf( uint8x) `" ++ [28040; 24687; 31867; 22411]%N ++ runes_of_ascii "` ,
+    float@lengthOf(trueish ) ,
+repeat zchar[ 255 ] u8x	`it's` , //
+}")).
+Eval vm_compute in ("<<<M395>>>" ++ check (runes_of_ascii "root packet // 50% %s
+Foo
+{ }packet BodyLength { @tag(	007
+) zchar[
+4294967296 ] _x ,x_y_z, @tag( // @lengthOf(
+3	)
+@leftPad  ('0'  ) @calculatedFrom( // 50% %s
+""packet"" ) i16
+_x
+    @lengthOf( BodyLength )
+`u8 x,`, } // @lengthOf(
+packet int {u64 i64_@calculatedFrom(""" ++ [28040; 24687]%N ++ runes_of_ascii """) ,
+    @tag( //	t
+10
+) repeat
+chars , }packet
+    float  { @calculatedFrom(""it's""  ) char[]
+    a1,Pad leftPad`// not a comment`, body	``  , Z9_@calculatedFrom( ""a\\""
+// @lengthOf(
+// " ++ [27880; 37322]%N ++ runes_of_ascii "
+)
+`tab	here`,@tag(4294967296
+    ) int16 BodyLength @calculatedFrom(  ""{,}""
+)`say ""hi""` ,
+}
+")).
+Eval vm_compute in ("<<<M43>>>" ++ check (runes_of_ascii "
+packet body{ @lengthOf(  zchar
+)
+f32
+    i8i8 , uint8x zchar `u8 x,` ,/// triple
+}packet pack
+{ @lengthOf( u ) /// triple
+char[]
+    charz// a // b
+@lengthOf(
+    o) , f32a @calculatedFrom( ""packet"") ,@lengthOf( metadata
+    )repeat int32 repeatCount
+    ,@leftPad(
+'\x00' ) char[] chars	@lengthOf( roots )
+, @calculatedFrom(""\n"" ) matchKey
+    //	t
+    ,
+    }
+packet
+u8x { @calculatedFrom( ""{,}"" )uint8 string_ @lengthOf( trueish ) , Header {  char[] lengthOf
+`u8 x,` , }
+    // " ++ [128512]%N ++ runes_of_ascii " emoji
+    ,// 50% %s
+i16 u `say ""hi""`	, }
+// " ++ [27880; 37322]%N ++ runes_of_ascii "
+")).
+Eval vm_compute in ("<<<M906>>>" ++ check (runes_of_ascii "
+root
+packet
+    chars
+{ Logon
+    @calculatedFrom(	""" ++ [128512]%N ++ runes_of_ascii """ // packet A { u8 x, }
+), u64 asx @lengthOf(
+    x ) , repeat trueish `" ++ [233]%N ++ runes_of_ascii "` // 50% %s
+,// " ++ [128512]%N ++ runes_of_ascii " emoji
+zchar[
+    //
+    007 ]body`it's` , repeat // `tick` ""quote"" 'q'
+MetaDataX , chars// a // b
+asx`// not a comment`
+    , }
+packet// trailing space 
+i64_ { match rootA as tag { [1
+]
+:Pad
+65535  : falsey
+,  } , } MetaData x_y_z {
+// @lengthOf(
+/// triple
+} // @lengthOf(
+packet matchKey {
+//
+//	t
+@calculatedFrom( ""\n"" ) f32 msg_type , zchar[ 10
+]	chars , }")).
+Eval vm_compute in ("<<<M3326>>>" ++ check (runes_of_ascii "// top
+packet // c0
+A // c1
+{ // c2
+match // c3
+packetx // c4
+as // c5
+BodyLength // c6
+{ // c7
+007 // c8
+: // c9
+A // c10
+""" ++ [28040; 24687]%N ++ runes_of_ascii """ // c11
+: // c12
+x_y_z // c13
+, // c14
+""" ++ [128512]%N ++ runes_of_ascii """ // c15
+: // c16
+crc // c17
+[ // c18
+""{,}"" // c19
+, // c20
+""\n"" // c21
+, // c22
+""" ++ [233]%N ++ runes_of_ascii "t" ++ [233]%N ++ runes_of_ascii """ // c23
+, // c24
+""x y"" // c25
+, // c26
+""a\""b"" // c27
+] // c28
+: // c29
+stringy // c30
+, // c31
+} // c32
+, // c33
+} // c34
+root // c35
+packet // c36
+i64_ // c37
+{ // c38
+repeat // c39
+pack // c40
+`100% of %d` // c41
+, // c42
+} // c43
+")).
+Eval vm_compute in ("<<<M4438>>>" ++ check (runes_of_ascii "  options
+    {
+
+    } packet
+tag
+	{ repeat
+    string
+
+    msg_type  , i64  float
+    `it's`
+
+    , @rightPad (
+
+'0' 
+)
+
+@lengthOf(MetaDataX
+) body
+,  match 
+Header	as leftPad {
+42	:
+    Header ,
+
+    }
+,@calculatedFrom(""" ++ [233]%N ++ runes_of_ascii "t" ++ [233]%N ++ runes_of_ascii """
+    ) string matchKey, 
+@rightPad
+
+    (
+
+'\x00'
+	)
+
+char[]
+	matchKey @lengthOf(
+    crc  ) `tab	here` 
+,uint64 charz
+``
+    ,} packet u128
+    { u64
+    A
+
+`tab	here`, }
+root
+
+packet i8i8{
+    }  // `tick` ""quote"" 'q'
+")).
+Eval vm_compute in ("<<<M3374>>>" ++ check (runes_of_ascii "// top
 packet
     // c0
-float // c1a
+B // c1a
   // c1b
-{ // c2a
-  // c2b
-repeat // c3
-i8i8 MetaDataX // c5
-`it's` // c6
-, rootA // c8
-, // c9a
-  // c9b
-repeat // c10
-int8 // c11
-int // c12
-, match // c14
-repeatCount // c15
-as // c16a
+{ u8 a // c4
+,
+    // c5
+} root
+    // c7
+packet // c8
+P // c9
+{
+    // c10
+u8 // c11
+K
+    // c12
+, u64
+    // c14
+L
+    // c15
+@lengthOf( // c16a
   // c16b
-x_y_z {
-    // c18
-""{,}"" // c19a
+Body // c17
+) // c18a
+  // c18b
+, // c19a
   // c19b
-: // c20
-Logon // c21
-, // c22a
-  // c22b
-} // c23
-, // c24a
-  // c24b
-} // c25a
+match
+    // c20
+K // c21a
+  // c21b
+as // c22
+Body // c23a
+  // c23b
+{
+    // c24
+1 // c25a
   // c25b
+: // c26
+B // c27a
+  // c27b
+, // c28a
+  // c28b
+}
+    // c29
+,
+    // c30
+}
+    // c31
 ")).
-Eval vm_compute in ("<<<M1730>>>" ++ check (runes_of_ascii "packet string_ {
-    @lengthOf(int)
-    BodyLength u8x,
-    i64_ `tab	here`,
-    char[3] string_,
-    repeat leftPad `" ++ [28040; 24687; 31867; 22411]%N ++ runes_of_ascii "`,
-    repeat int32 BodyLength `u8 x,`,// `tick` ""quote"" 'q'
-    @tag(4294967296)
-    BodyLength `crlf
-        line`,
-    msg_type Packet `" ++ [233]%N ++ runes_of_ascii "`,
-    float32 string_ @calculatedFrom(""""),
-    asx int `it's`,
+Eval vm_compute in ("<<<M3887>>>" ++ check (runes_of_ascii "packet int {
+    // " ++ [128512]%N ++ runes_of_ascii " emoji
+}
+
+options {
+    Z9_ = ' ';
+    repeatCount = 0
+    Header = zchar[007]
+    i64_ = """ ++ [128512]%N ++ runes_of_ascii """;
+}
+
+root packet leftPad {
+    roots,
+}
+
+root packet Foo {
+    repeat MetaDataX u8x `crlf
+    line`,
+    @lengthOf(Header)
+    zchar[65535] metadata `u8 x,`,
+    @tag(65535)
+    stringy {
+        options1 @lengthOf(asx),
+    },
+    char[0] Packet `two words`,
+    @lengthOf(u8x)
+    int @lengthOf(Logon),
 }")).
-Eval vm_compute in ("<<<M2090>>>" ++ check (runes_of_ascii "// top
-MetaData	// c0a
-    // c0b
-float // c1
-      {
-        // c2
+Eval vm_compute in ("<<<M3472>>>" ++ check (runes_of_ascii "options {
+    LittleEndian = false;
+    StringPrefixLenType = u16;
+    ArrayPrefixLenType = u32;
+    FixedStringPadChar = '0';
+}
+packet Leg {
+    char[] OrderId,
+    repeat InFlags49 {
+        float32 Tail,
+    },
+}
+root packet Heartbeat {
+    char[] Px,
+    f32 Side2,
+    repeat Leg,
+    char[] Flags,
+    u32 Acct,
+    u32 seqNo @lengthOf(Body),
+    match Acct as Body {
+        [165, 21] : Leg,
+    },
+}
+")).
+Eval vm_compute in ("<<<M1355>>>" ++ check (runes_of_ascii "packet
+trueish { body
+    { u64 leftPad , char[] u128 , } ,
+    }MetaData string_{
+i64_ Z9_ ,string
+    A,stringy // packet A { u8 x, }
+options1 `" ++ [28040; 24687; 31867; 22411]%N ++ runes_of_ascii "` ,// a // b
+char[] stringy `crlf
+line`  ,	int16 len //x
+, f64// c
+u128
+``// c
+,//
+} MetaData
+    string_
+    { }packet
+    // trailing space 
+    matchKey
+{  } options  {
+// " ++ [27880; 37322]%N ++ runes_of_ascii "
+// `tick` ""quote"" 'q'
+roots =
+    char[]  ; o = char[
+10] }")).
+Eval vm_compute in ("<<<M316>>>" ++ check (runes_of_ascii "packet
+charz
+{
+    repeat As
+{
+    rootA @calculatedFrom(""" ++ [28040; 24687]%N ++ runes_of_ascii """)
+`crlf
+line`,
+    zchar[ 0  ] // trailing space 
+u8x
+    , int@lengthOf(u8x // " ++ [128512]%N ++ runes_of_ascii " emoji
+) ,
+}
+, @rightPad (	) uint32 a1@calculatedFrom(
+    ""x y""	)
+,
+// " ++ [128512]%N ++ runes_of_ascii " emoji
+// " ++ [128512]%N ++ runes_of_ascii " emoji
+} packet Packet { @rightPad(
+    '0' )repeat matchKey `it's` , }
+    root
+packet Packet
+{	u32	f32a
+@calculatedFrom(  ""a\\"" )
+`u8 x,` , }
+")).
+Eval vm_compute in ("<<<M261>>>" ++ check (runes_of_ascii "MetaData
+o
+    {
+// 50% %s
+// " ++ [27880; 37322]%N ++ runes_of_ascii "
+Foo _x, }
+MetaData // 50% %s
+trueish //	t
+{ u8 crc
+`" ++ [233]%N ++ runes_of_ascii "` ,u64 charz `" ++ [28040; 24687; 31867; 22411]%N ++ runes_of_ascii "` , //x
+zchar[
+    00	] // @lengthOf(
+string_,	}	packet// c
+metadata { @leftPad ( '\x00') u128@lengthOf( len ) , @lengthOf(
+    u128 // a // b
+)
+    x , @lengthOf(
+int
+    ) zchar[3 ] Logon @lengthOf(
+Logon )  `" ++ [233]%N ++ runes_of_ascii "`
+    ,Pad
+    roots ,	} // 50% %s")).
+Eval vm_compute in ("<<<M3729>>>" ++ check (runes_of_ascii "  MetaData T	{  float32 pack
 
-  float64	// c3
-  charz  // c4a
-  // c4b
+``
 
-`
-`
-        // c5
+, i64_
+    i64_`" ++ [233]%N ++ runes_of_ascii "` 
+,Packet
+    o
+
     , 
 
-    // c6
-  } root	// c8
+    //	t
+	//
+  	i64_ Logon	,
+    As A  , //
 
-	packet// c9a
-	// c9b
-	chars
-    // c10
-  	{@rightPad ( '0'  // c14
-    	) 
-// c15
-Foo
-    // c16
+} packet a1 { @tag(	/// triple
+	0123456789
+	)match
+	lengthOf as As 	 // 50% %s
+{ 
+""a\\""  :repeatCount""" ++ [128512]%N ++ runes_of_ascii """	:
+
+    x  [	65535 ,	42	]
+    : roots ,
+
+[ 
+10  ,
+	0
+] :
+
+lengthOf  // trailing space 
+	  ,}
+
     ,
-        // c17
 }
 ")).
-Eval vm_compute in ("<<<M519>>>" ++ check (runes_of_ascii "root packet tag { }  packet MetaDataX{char[ char[007	]
-// c
-/// triple
-asx  @calculatedFrom( ""a\""b""
-) `say ""hi""`// " ++ [27880; 37322]%N ++ runes_of_ascii "
-,  @tag(4294967296 )
-    char[1//x
-] packetx @calculatedFrom(""a\""b""
-    ) ,
-// " ++ [128512]%N ++ runes_of_ascii " emoji
-// a // b
-@calculatedFrom(""" ++ [233]%N ++ runes_of_ascii "t" ++ [233]%N ++ runes_of_ascii """  ) repeat pack // " ++ [27880; 37322]%N ++ runes_of_ascii "
-,
-    } // c")).
-Eval vm_compute in ("<<<M529>>>" ++ check (runes_of_ascii "root packet tag { }  packet MetaDataX{char[007	] ]
-// c
-/// triple
-asx  @calculatedFrom( ""a\""b""
-) `say ""hi""`// " ++ [27880; 37322]%N ++ runes_of_ascii "
-,  @tag(4294967296 )
-    char[1//x
-] packetx @calculatedFrom(""a\""b""
-    ) ,
-// " ++ [128512]%N ++ runes_of_ascii " emoji
-// a // b
-@calculatedFrom(""" ++ [233]%N ++ runes_of_ascii "t" ++ [233]%N ++ runes_of_ascii """  ) repeat pack // " ++ [27880; 37322]%N ++ runes_of_ascii "
-,
-    } // c")).
-Eval vm_compute in ("<<<M664>>>" ++ check (runes_of_ascii "root packet tag { }  packet MetaDataX{char[007	]
-// c
-/// triple
-asx  @calculatedFrom( ""a\""b""
-) `say ""hi""`// " ++ [27880; 37322]%N ++ runes_of_ascii "
-,  @tag(4294967296 )
-   ~ char[1//x
-] packetx @calculatedFrom(""a\""b""
-    ) ,
-// " ++ [128512]%N ++ runes_of_ascii " emoji
-// a // b
-@calculatedFrom(""" ++ [233]%N ++ runes_of_ascii "t" ++ [233]%N ++ runes_of_ascii """  ) repeat pack // " ++ [27880; 37322]%N ++ runes_of_ascii "
-,
-    } // c")).
-Eval vm_compute in ("<<<M615>>>" ++ check (runes_of_ascii "root packet tag { }  packet MetaDataX{char[007	]
-// c
-/// triple
-asx  @calculatedFrom( ""a\""b""
-) `say ""hi""`// " ++ [27880; 37322]%N ++ runes_of_ascii "
-,  @tag(4294967296 )
-    char[1//x
-] packetx @calculatedFrom(""a\""b""
-    ) @calculatedFrom(
-// " ++ [128512]%N ++ runes_of_ascii " emoji
-// a // b
-,""" ++ [233]%N ++ runes_of_ascii "t" ++ [233]%N ++ runes_of_ascii """  ) repeat pack // " ++ [27880; 37322]%N ++ runes_of_ascii "
-,
-    } // c")).
-Eval vm_compute in ("<<<M228>>>" ++ check (runes_of_ascii "
-packet
-Z9_  { } packet T
+Eval vm_compute in ("<<<M1111>>>" ++ check (runes_of_ascii "packet  rootA {}
+    packet lengthOf /// triple
 {
-repeat
-    charz {match float as // " ++ [128512]%N ++ runes_of_ascii " emoji
-stringy {00 : f32a [ 00
-    //x
-    , 00 ,""a\\""
-// packet A { u8 x, }
-// a // b
-, 0 ,	7, 0 ] : As , } ,//	t
-uint32 asx ,
-//
-/// triple
-repeat u8x {
-    repeat
-//x
-//
-u8 string_ ,
-} , } , }
-")).
-Eval vm_compute in ("<<<M568>>>" ++ check (runes_of_ascii "root packet tag { }  packet MetaDataX{char[007	]
-// c
-/// triple
-asx  @calculatedFrom( ""a\""b""
-) `say ""hi""`// " ++ [27880; 37322]%N ++ runes_of_ascii "
-,  @tag( )
-    char[1//x
-] packetx @calculatedFrom(""a\""b""
-    ) ,
-// " ++ [128512]%N ++ runes_of_ascii " emoji
-// a // b
-@calculatedFrom(""" ++ [233]%N ++ runes_of_ascii "t" ++ [233]%N ++ runes_of_ascii """  ) repeat pack // " ++ [27880; 37322]%N ++ runes_of_ascii "
-,
-    } // c")).
-Eval vm_compute in ("<<<M1915>>>" ++ check (runes_of_ascii "root packet tag {
-}
-
-packet MetaDataX {
-    char[007] asx @calculatedFrom(""a\""b"") `say ""hi""`,
-    @tag(4294967296)
-    char[1] packetx @calculatedFrom(""a\""b""),
-    // " ++ [128512]%N ++ runes_of_ascii " emoji
-    // a // b
-    @calculatedFrom(""" ++ [233]%N ++ runes_of_ascii "t" ++ [233]%N ++ runes_of_ascii """)
-    pack,
-}// c")).
-Eval vm_compute in ("<<<M2026>>>" ++ check (runes_of_ascii "// top
-packet B {
-    u8 a,
-}
-
-// c6
-root packet P {
-    // c10
-    u8 K,
-    // c13
-    u8 L @lengthOf(Body),
-    // c19
-    match K as Body {
-        // c24
-        1 : B,
-        // c28
-    },// c30
-}
-// c31")).
-Eval vm_compute in ("<<<M1637>>>" ++ check (runes_of_ascii "
-
-  packet 
-        // `tick` ""quote"" 'q'
-    crc
-// packet A { u8 x, }
-		//	t
-    { u32
-a1  ,  
-  // trailing space 
-roots
-	charz	//
-`two words`,
-}MetaData int
-	{ }/// triple@leftpad
-")).
-Eval vm_compute in ("<<<M2133>>>" ++ check (runes_of_ascii "  // top
-  packet// c0
-    x// c1
-    { 	 // c2
-  @rightPad	// c3
-
-	( 	 // c4
-    )  // c5
-
-  repeat// c6
-  	roots  // c7
-
-	Logon  // c8
-  `doc`  // c9
-  ,  // c10
-  } // c11
-")).
-Eval vm_compute in ("<<<M430>>>" ++ check (runes_of_ascii "packet
-    // `tick` ""quote"" 'q'
-    crc
-// packet A { u8 x, }
-//	t
-{
-u32 a1 ,
-    // trailing space 
-    roots
-charz //
-`two words`, ,	}
-    MetaData int {
-} /// triple")).
-Eval vm_compute in ("<<<M391>>>" ++ check (runes_of_ascii "packet
-    // `tick` ""quote"" 'q'
-    {
-// packet A { u8 x, }
-//	t
-crc
-u32 a1 ,
-    // trailing space 
-    roots
-charz //
-`two words`,	}
-    MetaData int {
-} /// triple")).
-Eval vm_compute in ("<<<M409>>>" ++ check (runes_of_ascii "packet
-    // `tick` ""quote"" 'q'
-    crc
-// packet A { u8 x, }
-//	t
-{
-u32 a1 
-    // trailing space 
-    roots
-charz //
-`two words`,	}
-    MetaData int {
-} /// triple")).
-Eval vm_compute in ("<<<M339>>>" ++ check (runes_of_ascii "//
-packet
-int {@leftPad (
-    '\x00' ) MetaDataX @lengthOf( u128 ) ,u
-    a1 `doc` ,
     @calculatedFrom(
-    ""a\""b"") i16 repeatCount // @lengthOf(
-`tab	here`
-, }")).
-Eval vm_compute in ("<<<M2114>>>" ++ check (runes_of_ascii "
-packet	A {
+""a\""b""
+    )
+    @leftPad (
+'\x00' ) //
+Logon {x@calculatedFrom(""a	b""
+    ) , } , }
+    // c
+    packet //
+Pad { // " ++ [27880; 37322]%N ++ runes_of_ascii "
+@leftPad (
+// @lengthOf(
+/// triple
+) @lengthOf( u128
+) // @lengthOf(
+@rightPad ( ' ') T @lengthOf( Foo )
+    //	t
+    `{ , }`, }
+")).
+Eval vm_compute in ("<<<M924>>>" ++ check (runes_of_ascii "packet
+    // " ++ [128512]%N ++ runes_of_ascii " emoji
+    Z9_ // c
+{lengthOf{ char[] u128
+,
+    u32
+o , }, } options
+    {} MetaData len // c
+{ char
+//x
+/// triple
+Logon  ,	repeatCount lengthOf
+    // a // b
+    ,
+Z9_ // `tick` ""quote"" 'q'
+o ,  string MetaDataX `say ""hi""` , char[  1 //
+]
+    calculatedFrom
+    `
+` , u
+//
+/// triple
+tag,
+} //")).
+Eval vm_compute in ("<<<M343>>>" ++ check (runes_of_ascii "// a // b
+options {
+    // `tick` ""quote"" 'q'
+    metadata = i64 string_=uint16 _x = i8 calculatedFrom  =  ""1"" ; } options {
+i8i8 =  uint32 ;tag = ""a\\"" ;
+roots = char[7	] Logon
+=  ""a\\""	; } MetaData repeatCount {
+    // 50% %s
+    MetaDataX falsey`// not a comment` ,// c
+} // `tick` ""quote"" 'q'")).
+Eval vm_compute in ("<<<M3475>>>" ++ check (runes_of_ascii "options {
+    LittleEndian = true;
+    StringPrefixLenType = u32;
+    FixedStringPadFromLeft = false;
+    FixedStringPadChar = '0';
+}
+packet Party {
+    int16 Acct,
+}
+packet Quote {
+}
+root packet Order {
+    string Side2,
+    repeat string OrderId,
+    repeat string venue,
+    Quote,
+}
+")).
+Eval vm_compute in ("<<<M325>>>" ++ check (runes_of_ascii "
+packet charz { i64 MetaDataX `doc` // " ++ [27880; 37322]%N ++ runes_of_ascii "
+, } options
+{lengthOf = ' ' ; A = 3}// @lengthOf(
+packet packetx { @lengthOf( Z9_) string
+    // c
+    x ,	} packet msg_type { }
+//	t
+//
+packet As {
+//	t
+// packet A { u8 x, }
+repeat Pad
+{ f64
+    o@calculatedFrom(
+    ""a	b"" ),},}
+")).
+Eval vm_compute in ("<<<M743>>>" ++ check (runes_of_ascii "root packet  asx { @lengthOf( o ) @rightPad(
+'0'
+) uint32 len`it's`
+    ,	} options
+{f32a =
+string ;
+    rootA =
+""\" ++ [233]%N ++ runes_of_ascii """ crc = '\x00' ;
+} options { tag = zchar[
+0123456789
+] // packet A { u8 x, }
+; metadata=
+""CRC32"" ;	As  = """ ++ [233]%N ++ runes_of_ascii "t" ++ [233]%N ++ runes_of_ascii """ ; // c
+string_
+    = uint32 ;
+    }
+//x
+")).
+Eval vm_compute in ("<<<M1529>>>" ++ check (runes_of_ascii "// 50% %s
+packet	a1
+    Foo zchar[
+// a // b
+// 50% %s
+007]
+T `it's`
+    ,@rightPad
+    // a // b
+    (
+'\x00')
+    o repeatCount , }  packet Logon {  }packet	Logon //x
+{ repeat // " ++ [128512]%N ++ runes_of_ascii " emoji
+uint16 u128
+    //
+    `a\`,
+falsey
+@calculatedFrom(""packet"" ) ,
+    } 	 ")).
+Eval vm_compute in ("<<<M1698>>>" ++ check (runes_of_ascii "// 50% %s
+packet	a1
+    { zchar[
+// a // b
+// 50% %s
+007]
+T `it's`
+    ,@rightPad
+    // a // b
+    (
+'\x00')
+    o repeatCount , }  packet " ++ [127]%N ++ runes_of_ascii "Logon {  }packet	Logon //x
+{ repeat // " ++ [128512]%N ++ runes_of_ascii " emoji
+uint16 u128
+    //
+    `a\`,
+falsey
+@calculatedFrom(""packet"" ) ,
+    } 	 ")).
+Eval vm_compute in ("<<<M1643>>>" ++ check (runes_of_ascii "// 50% %s
+packet	a1
+    { zchar[
+// a // b
+// 50% %s
+007]
+T `it's`
+    ,@rightPad
+    // a // b
+    (
+'\x00')
+    o repeatCount , }  packet Logon {  }packet	Logon //x
+{ repeat // " ++ [128512]%N ++ runes_of_ascii " emoji
+u128 uint16
+    //
+    `a\`,
+falsey
+@calculatedFrom(""packet"" ) ,
+    } 	 ")).
+Eval vm_compute in ("<<<M3944>>>" ++ check (runes_of_ascii "packet body {
+    char[10] body,
+    @lengthOf(rootA)
+    @lengthOf(crc)
+    @rightPad(' ')
+    match uint8x as asx {
+        ""x y"" : u8x,
+        ""CRC32"" : float,
+        0123456789 : int,
+        0 : Foo,
+        3 : asx,
+        // packet A { u8 x, }
+    },
+}")).
+Eval vm_compute in ("<<<M1564>>>" ++ check (runes_of_ascii "// 50% %s
+packet	a1
+    { zchar[
+// a // b
+// 50% %s
+007]
+T `it's`
+    ,' '
+    // a // b
+    (
+'\x00')
+    o repeatCount , }  packet Logon {  }packet	Logon //x
+{ repeat // " ++ [128512]%N ++ runes_of_ascii " emoji
+uint16 u128
+    //
+    `a\`,
+falsey
+@calculatedFrom(""packet"" ) ,
+    } 	 ")).
+Eval vm_compute in ("<<<M1239>>>" ++ check (runes_of_ascii "
+root packet BodyLength{ @lengthOf(  falsey ) body @lengthOf( x_y_z
+) ,@calculatedFrom( ""{,}"" ) match len as Z9_
+    { 65535
+:	BodyLength }
+,
+@rightPad ( '0'
+    )
+    repeat charz
+`" ++ [233]%N ++ runes_of_ascii "`
+,
+}
+options {  x=""x y"" }
+MetaData
+repeatCount//x
+{ // " ++ [27880; 37322]%N ++ runes_of_ascii "
+}
+")).
+Eval vm_compute in ("<<<M3440>>>" ++ check (runes_of_ascii "
 
-    match 
-k  as  n
+  packet
+Logon {
+
+string
+user
+	,
+
+}root packet	Frame{	u8  K,	match
+    K
+    as
+
+    Body {
+1  : Logon , 
+2 :Logout
+,	}
+
+    , Tail  ,
+    }
+    packet
+
+    Logout
+{
+    u16  reason 
+,}  packet
+Tail
 {
 
-[1
+    u32
 
-,
-    ""bb"" , 007,
-	""d"" 
-,
-    5
-,
-    ""f"" ,7 ,	""h""	,
-9 ,""j""
+    crc, }
 
-,
-    11
-, ""l""
-	]: B
+")).
+Eval vm_compute in ("<<<M627>>>" ++ check (runes_of_ascii "options	{// a // b
+} packet
+    lengthOf { // trailing space 
+u64 string_
+    @lengthOf( MetaDataX )  , } MetaData
+    _x{ char[]
+leftPad `" ++ [233]%N ++ runes_of_ascii "`
+, i64 a1
+    , float32 A `{ , }` , i16 //	t
+crc  , MetaDataX metadata `say ""hi""`,
+    }
+")).
+Eval vm_compute in ("<<<M3753>>>" ++ check (runes_of_ascii "// `tick` ""quote"" 'q'
+packet x {
+    @calculatedFrom(""\n"")
+    repeat calculatedFrom _x `{ , }`,
+    char[] u128,
+    stringy @calculatedFrom(""""),
+    @lengthOf(x_y_z)
+    @tag(42)
+    @rightPad('0')
+    char[] trueish,
+}")).
+Eval vm_compute in ("<<<M358>>>" ++ check (runes_of_ascii "packet x {@rightPad ( '\x00'  ) char[ 10 // a // b
+]
+_x ,
+    u32 trueish
+// c
+// packet A { u8 x, }
+@lengthOf( As) `a\` ,@calculatedFrom(
+    // c
+    ""\" ++ [233]%N ++ runes_of_ascii """ ) char
+//
+// a // b
+rootA @calculatedFrom( ""\n"" ) ,
+}
+")).
+Eval vm_compute in ("<<<M4089>>>" ++ check (runes_of_ascii "MetaData o {
+    char[] Header `
+    `,
+    stringy trueish,
+    Logon a1 `line1
+    line2`,
+}
 
-,
-    2
-	: C  }
-
-    ,
-} ")).
-Eval vm_compute in ("<<<M1599>>>" ++ check (runes_of_ascii "packet A {
+root packet uint8x {
+    @lengthOf(zchar)
+    @tag(4294967296)
+    @leftPad('\x00')
+    repeat BodyLength,
+}")).
+Eval vm_compute in ("<<<M579>>>" ++ check (runes_of_ascii "packet tag { // @lengthOf(
+match zchar as A { 0123456789 :
+body
+    ,	255 : Z9_
+    3 :_x}, int16 pack
+@lengthOf(x_y_z //
+)
+,	} MetaData  lengthOf { char[ 255  ] Header `" ++ [233]%N ++ runes_of_ascii "` //x
+, // c
+}
+")).
+Eval vm_compute in ("<<<M784>>>" ++ check (runes_of_ascii "MetaData uint8x { leftPad Pad
+    `crlf
+line` , char[3
+    ]
+    falsey , zchar[	0123456789
+// trailing space 
+// a // b
+]
+    // `tick` ""quote"" 'q'
+    a1	, string float `{ , }` , }")).
+Eval vm_compute in ("<<<M757>>>" ++ check (runes_of_ascii "// packet A { u8 x, }
+MetaData repeatCount { // @lengthOf(
+Z9_ int`a\`
+    , } options {Pad=
+' '
+    ; /// triple
+A =  ""\" ++ [233]%N ++ runes_of_ascii """
+; As=
+    uint64  ;//	t
+}root packet
+    f32a{}
+")).
+Eval vm_compute in ("<<<M3611>>>" ++ check (runes_of_ascii "packet A {
     match k as n {
         [
             ""a"", 22, ""c c"", 4, ""e"",
-            66, ""g"", 8, ""i"", 10
+            66, ""g"", 8, ""i"", 10,
+            ""k"", 12
         ] : B,
         2 : C,
     },
 }")).
-Eval vm_compute in ("<<<M707>>>" ++ check (runes_of_ascii "root packet len // trailing space 
-{
-// " ++ [27880; 37322]%N ++ runes_of_ascii "
-//	t
-char[10
-] metadata	@lengthOf( o ) `crlf
-line`,
-    @rightPad
-( ' '
-) string
-    Header")).
-Eval vm_compute in ("<<<M1473>>>" ++ check (runes_of_ascii "
-options{
-	LittleEndian  =
-true
-; 
+Eval vm_compute in ("<<<M4136>>>" ++ check (runes_of_ascii "packet 
+A	{u8
+
+    a	, }	packet
+B{ 
+u16
+b,}root packet  P
+	{
+u8 K1 ,u8	K2
+,
+match
+K1	as
+
+    M1	{  1 :A	,
+	} ,
+match	K2	as  M2
+
+    {
+	1
+	:
+
+B
+,
 }
-    root  packet P  { u16
-	a
-,
-
-    u32
-    Sum
-
-    @calculatedFrom(
-
-""CRC32"" 
-) , }
+,}
 ")).
-Eval vm_compute in ("<<<M1229>>>" ++ check (runes_of_ascii "root packet matchKey { // c
-zchar[ 3 ] pack @calculatedFrom( ""a	b"" ) `doc` , } options { } MetaData A { int8 msg_type , }")).
-Eval vm_compute in ("<<<M1261>>>" ++ check (runes_of_ascii "root packet matchKey { zchar[ 3 ] pack @calculatedFrom( ""a	b"" ) `doc` , } options { } MetaData A { // c
-int8 msg_type , }")).
-Eval vm_compute in ("<<<M902>>>" ++ check (runes_of_ascii "packet A {
-  match k as n {
-    [""a"", ""bb"", ""c c"", ""d"", ""e"", ""f"", ""g"", ""h"", ""i"", ""j"", ""k"", ""l""] : B
-    2 : C
-  },
-}")).
-Eval vm_compute in ("<<<M910>>>" ++ check (runes_of_ascii "packet A {
-  match k as n {
-    [""a"", ""bb"", 007, ""d"", ""e"", 66, ""g"", ""h"", 9, ""j"", ""k"", 12] : B
-    2 : C
-  },
-}")).
-Eval vm_compute in ("<<<M1674>>>" ++ check (runes_of_ascii "
-MetaData
-
-    body	{ i64
-	pack
-
-    `it's`
+Eval vm_compute in ("<<<M748>>>" ++ check (runes_of_ascii "options
+// " ++ [128512]%N ++ runes_of_ascii " emoji
+//	t
+{
+//
+// c
+} MetaData
+    /// triple
+    float
+{
+zchar//	t
+f32a
 ,
-} 	 // c
-  packet	stringy  {	int16 calculatedFrom 
-, } ")).
-Eval vm_compute in ("<<<M939>>>" ++ check (runes_of_ascii "packet A {
-    Inner {
-        u8 x `a
+    } MetaData packetx { i64_
+// @lengthOf(
+//x
+trueish`" ++ [233]%N ++ runes_of_ascii "` , }")).
+Eval vm_compute in ("<<<M4383>>>" ++ check (runes_of_ascii "
 
-b`,
-        Deep {
-            u8 y `a
+  MetaData 
+//	t
+  	u8x 
 
-b`,
-        },
+//	t
+{	u8x	packetx
+
+`say ""hi""` 
+,	// trailing space 
+
+char[]
+    options1 `100% of %d`
+,	char[ 00
+]
+	i64_  `" ++ [28040; 24687; 31867; 22411]%N ++ runes_of_ascii "`
+
+,
+
+} ")).
+Eval vm_compute in ("<<<M2101>>>" ++ check (runes_of_ascii "MetaData BodyLength
+{ int8 Foo
+, string
+    MetaDataX , float zchar , ,pack options1
+,asx string_, }
+packet u8x {Foo@lengthOf(charz )
+`" ++ [28040; 24687; 31867; 22411]%N ++ runes_of_ascii "`,  }
+")).
+Eval vm_compute in ("<<<M2195>>>" ++ check (runes_of_ascii "MetaData BodyLength
+{ int8 Foo
+, " ++ [233]%N ++ runes_of_ascii "string
+    MetaDataX , float zchar ,pack options1
+,asx string_, }
+packet u8x {Foo@lengthOf(charz )
+`" ++ [28040; 24687; 31867; 22411]%N ++ runes_of_ascii "`,  }
+")).
+Eval vm_compute in ("<<<M2127>>>" ++ check (runes_of_ascii "MetaData BodyLength
+{ int8 Foo
+, string
+    MetaDataX , float zchar ,pack options1
+,asx ,string_ }
+packet u8x {Foo@lengthOf(charz )
+`" ++ [28040; 24687; 31867; 22411]%N ++ runes_of_ascii "`,  }
+")).
+Eval vm_compute in ("<<<M2150>>>" ++ check (runes_of_ascii "MetaData BodyLength
+{ int8 Foo
+, string
+    MetaDataX , float zchar ,pack options1
+,asx string_, }
+packet u8x Foo@lengthOf(charz )
+`" ++ [28040; 24687; 31867; 22411]%N ++ runes_of_ascii "`,  }
+")).
+Eval vm_compute in ("<<<M1989>>>" ++ check (runes_of_ascii "
+packet leftPad {
+@leftPad( '0')
+u32
+i64_ `100% of %d` ,repeat// 50% %s
+`u8 x,` chars
+    ,
+} MetaData
+    f32a
+{ // packet A { u8 x, }
+}")).
+Eval vm_compute in ("<<<M2316>>>" ++ check (runes_of_ascii "options
+    {
+x_y_z// " ++ [27880; 37322]%N ++ runes_of_ascii "
+= 10 ; }
+packet body {
+    @calculatedFrom(
+// trailing space 
+// " ++ [27880; 37322]%N ++ runes_of_ascii "
+""1""
+)	match T as Foo
+    {
+255 :T char[ }
+,}")).
+Eval vm_compute in ("<<<M1997>>>" ++ check (runes_of_ascii "
+packet leftPad {
+@leftPad( '0')
+u32
+i64_ `100% of %d` ,repeat// 50% %s
+i8 chars
+    , ,
+} MetaData
+    f32a
+{ // packet A { u8 x, }
+}")).
+Eval vm_compute in ("<<<M3541>>>" ++ check (runes_of_ascii "packet A {
+    match k as n {
+        [
+            ""a"", 22, ""c c"", 4, ""e"",
+            66, ""g"", 8
+        ] : B,
+        2 : C,
     },
 }")).
-Eval vm_compute in ("<<<M1822>>>" ++ check (runes_of_ascii "MetaData asx {
-    chars f32a,
-    string T,
-}
-
-options {
-    zchar = 10
-    // " ++ [27880; 37322]%N ++ runes_of_ascii "
-    crc = true
+Eval vm_compute in ("<<<M1939>>>" ++ check (runes_of_ascii "
+packet leftPad [
+@leftPad( '0')
+u32
+i64_ `100% of %d` ,repeat// 50% %s
+i8 chars
+    ,
+} MetaData
+    f32a
+{ // packet A { u8 x, }
 }")).
-Eval vm_compute in ("<<<M1633>>>" ++ check (runes_of_ascii "packet
-o	{repeat 
-Logon
-    uint8x ,	} 
-options	{asx =
-zchar[ 3
-	]
-stringy 
+Eval vm_compute in ("<<<M2250>>>" ++ check (runes_of_ascii "options
+    {
+x_y_z// " ++ [27880; 37322]%N ++ runes_of_ascii "
+= 10 ; }
+packet { body
+    @calculatedFrom(
+// trailing space 
+// " ++ [27880; 37322]%N ++ runes_of_ascii "
+""1""
+)	match T as Foo
+    {
+255 :T , }
+,}")).
+Eval vm_compute in ("<<<M2021>>>" ++ check (runes_of_ascii "
+packet leftPad {
+@leftPad( '0')
+u32
+i64_ `100% of %d` ,repeat// 50% %s
+i8 chars
+    ,
+} MetaData
+    f32a
+{ // packet A { u8 x, }
+")).
+Eval vm_compute in ("<<<M2050>>>" ++ check (runes_of_ascii "MetaData 
+{ int8 Foo
+, string
+    MetaDataX , float zchar ,pack options1
+,asx string_, }
+packet u8x {Foo@lengthOf(charz )
+`" ++ [28040; 24687; 31867; 22411]%N ++ runes_of_ascii "`,  }
+")).
+Eval vm_compute in ("<<<M2322>>>" ++ check (runes_of_ascii "options
+    {
+x_y_z// " ++ [27880; 37322]%N ++ runes_of_ascii "
+= 10 ; }
+packet body {
+    @calculatedFrom(
+// trailing space 
+// " ++ [27880; 37322]%N ++ runes_of_ascii "
+""1""
+)	match T as Foo
+    {
+255 :T ,")).
+Eval vm_compute in ("<<<M2317>>>" ++ check (runes_of_ascii "options
+    {
+x_y_z// " ++ [27880; 37322]%N ++ runes_of_ascii "
+= 10 ; }
+packet body {
+    @calculatedFrom(
+// trailing space 
+// " ++ [27880; 37322]%N ++ runes_of_ascii "
+""1""
+)	match T as Foo
+    {
+255 :T")).
+Eval vm_compute in ("<<<M1312>>>" ++ check (runes_of_ascii "  options
+{ Logon // @lengthOf(
 =
-// c
-'\x00'}
-
-")).
-Eval vm_compute in ("<<<M1477>>>" ++ check (runes_of_ascii "
-
-  root
-packet
-
-    P {
-
-u16 a
-,u32	Sum
-	@calculatedFrom(
-
-    ""CRC32""
-
-    ) , 
-} ")).
-Eval vm_compute in ("<<<M1188>>>" ++ check (runes_of_ascii "MetaData float { float64 charz // c
-`
-` , } root packet chars { @rightPad ( '0' ) Foo , }")).
-Eval vm_compute in ("<<<M1399>>>" ++ check (runes_of_ascii "packet chars
-// c
-{ } packet MetaDataX { @tag( 42 ) i16 string_ , repeat x `say ""hi""` , }")).
-Eval vm_compute in ("<<<M1729>>>" ++ check (runes_of_ascii "packet A
-
-    { Inner
-{	match
-k  as	n {
-[
-1 , 22 ,
-
-    007
-    ] :B, }, }
-
-,
-
+u16 roots =
+'\x00'
+//
+//
+;o
+= ""abc"" ; }packet
+    A { // `tick` ""quote"" 'q'
+Z9_ charz	, }")).
+Eval vm_compute in ("<<<M3705>>>" ++ check (runes_of_ascii "root packet f32a {
 }
-")).
-Eval vm_compute in ("<<<M1129>>>" ++ check (runes_of_ascii "packet metadata {
-// c
-Logon { A `" ++ [28040; 24687; 31867; 22411]%N ++ runes_of_ascii "` , tag o , } , zchar len `// not a comment` , }")).
-Eval vm_compute in ("<<<M1630>>>" ++ check (runes_of_ascii "  MetaData
-    repeatCount {
 
+MetaData tag {
 }
-options  {  // packet A { u8 x, }
 
-	} 
-
-// @lengthOf(")).
-Eval vm_compute in ("<<<M1366>>>" ++ check (runes_of_ascii "packet o { repeat Logon uint8x , } options { asx = zchar[ 3 // c
-] stringy = '\x00' }")).
-Eval vm_compute in ("<<<M1304>>>" ++ check (runes_of_ascii "
-// c
-MetaData body { i64 pack `it's` , } packet stringy { int16 calculatedFrom , }")).
-Eval vm_compute in ("<<<M1327>>>" ++ check (runes_of_ascii "MetaData body { i64 pack `it's` , } packet stringy { int16 // c
-calculatedFrom , }")).
-Eval vm_compute in ("<<<M967>>>" ++ check (runes_of_ascii "packet A {
-    u32 crc @calculatedFrom(""\
-""),
-    @calculatedFrom(""\
-"") u8 y,
-}")).
-Eval vm_compute in ("<<<M408>>>" ++ check (runes_of_ascii "packet
-    // `tick` ""quote"" 'q'
-    crc
-// packet A { u8 x, }
 //	t
-{
-u32")).
-Eval vm_compute in ("<<<M403>>>" ++ check (runes_of_ascii "packet
-    // `tick` ""quote"" 'q'
-    crc
-// packet A { u8 x, }
-//	t
-{")).
-Eval vm_compute in ("<<<M1487>>>" ++ check (runes_of_ascii "  root
-packet
-
-P {u8
-s_u8
-    ,repeat u8 r_u8 ,u16
-b_len
-,  }
-")).
-Eval vm_compute in ("<<<M943>>>" ++ check (runes_of_ascii "packet A {
-    B b `x
-`,
-    B `x
-`,
-    repeat B bs `x
-`,
+packet i8i8 {
+    @lengthOf(options1)
+    zchar[1] BodyLength @lengthOf(u),
 }")).
-Eval vm_compute in ("<<<M1287>>>" ++ check (runes_of_ascii "packet x { @rightPad ( )
-// c
-repeat roots Logon `doc` , }")).
-Eval vm_compute in ("<<<M1973>>>" ++ check (runes_of_ascii "root packet
+Eval vm_compute in ("<<<M4337>>>" ++ check (runes_of_ascii "options {
+    options1 = float64
+    leftPad = true;
+    MetaDataX = char[00];
+    roots = false
+}
 
-u128
-        // c
-    {chars`it's` , }
-
-")).
-Eval vm_compute in ("<<<M1725>>>" ++ check (runes_of_ascii "packet
-A
-
-    {u8 x
-`d" ++ [65279]%N ++ runes_of_ascii "`
-    , 	 // c" ++ [65279]%N ++ runes_of_ascii "
-
-	}
-
-")).
-Eval vm_compute in ("<<<M960>>>" ++ check (runes_of_ascii "options {
-    a = ""x\
-y"";
-    b = ""x\
-y""
+packet string_ {
 }")).
-Eval vm_compute in ("<<<M1666>>>" ++ check (runes_of_ascii "
-options
-	{
-	asx
-	=
-    '0'
-;
+Eval vm_compute in ("<<<M1924>>>" ++ check (runes_of_ascii "packet a" ++ [769]%N ++ runes_of_ascii "b {
+    roots `it's`
+// trailing space 
+//x
+, char[ 42
+    ]  A, // " ++ [27880; 37322]%N ++ runes_of_ascii "
+f64
+repeatCount
+    `crlf
+line`
+,}")).
+Eval vm_compute in ("<<<M1836>>>" ++ check (runes_of_ascii "packet [ {
+    roots `it's`
+// trailing space 
+//x
+, char[ 42
+    ]  A, // " ++ [27880; 37322]%N ++ runes_of_ascii "
+f64
+repeatCount
+    `crlf
+line`
+,}")).
+Eval vm_compute in ("<<<M3637>>>" ++ check (runes_of_ascii "
+
+  //
+options{
+// @lengthOf(
+// a // b
+
+  i64_=""a	b"";  //x
+  	BodyLength
+    = ' '
+; lengthOf =f64  ;
+    }
+
+")).
+Eval vm_compute in ("<<<M2989>>>" ++ check (runes_of_ascii "packet A {
+  match k as n {
+    [""a"", ""bb"", ""c c"", ""d"", ""e"", ""f"", ""g"", ""h"", ""i"", ""j"", ""k""] : B
+    2 : C
+  },
+}")).
+Eval vm_compute in ("<<<M3014>>>" ++ check (runes_of_ascii "packet A {
+    u16 len @lengthOf(body) `a
+b`,
+    u32 crc @calculatedFrom(""CRC32"") `a
+b`,
+    string body,
+}")).
+Eval vm_compute in ("<<<M3514>>>" ++ check (runes_of_ascii "
+// 50% %s
+    	options 
+    // c
+    {
+
+    f32a
+=
+    '\x00'
+	;
+	lengthOf
+=
+
+    ' ' ;
 
     }
+
 ")).
-Eval vm_compute in ("<<<M1087>>>" ++ check (runes_of_ascii "root // a
- packet // b
- A // c
- { }")).
-Eval vm_compute in ("<<<M954>>>" ++ check (runes_of_ascii "packet A {
-    u8 x `tab
-	x`,
+Eval vm_compute in ("<<<M2983>>>" ++ check (runes_of_ascii "packet A {
+  match k as n {
+    [""a"", ""bb"", 007, ""d"", ""e"", 66, ""g"", ""h"", 9, ""j""] : B,
+    2 : C
+  },
 }")).
-Eval vm_compute in ("<<<M654>>>" ++ check (runes_of_ascii "root packet tag { }  packet ")).
-Eval vm_compute in ("<<<M1169>>>" ++ check (runes_of_ascii "root packet pack // c
-{ }")).
-Eval vm_compute in ("<<<M1037>>>" ++ check (runes_of_ascii "// c 	
-packet A {
+Eval vm_compute in ("<<<M3518>>>" ++ check (runes_of_ascii "options
+{ 
+lengthOf
+    =//x
+		i16
+BodyLength 
+=
+	0
+;
+    pack=
+false
+
+    ; A=
+char[
+3
+
+]  }")).
+Eval vm_compute in ("<<<M2971>>>" ++ check (runes_of_ascii "packet A {
+  match k as n {
+    [""a"", ""bb"", 007, ""d"", ""e"", 66, ""g"", ""h"", 9] : B
+    2 : C
+  },
 }")).
-Eval vm_compute in ("<<<M1012>>>" ++ check (runes_of_ascii "// c" ++ [8233]%N ++ runes_of_ascii "
-packet A {
+Eval vm_compute in ("<<<M2957>>>" ++ check (runes_of_ascii "packet A {
+  match k as n {
+    [""a"", ""bb"", 007, ""d"", ""e"", 66, ""g"", ""h""] : B,
+    2 : C
+  },
 }")).
-Eval vm_compute in ("<<<M1014>>>" ++ check (runes_of_ascii "packet A {
-}// c" ++ [8239]%N)).
-Eval vm_compute in ("<<<M728>>>" ++ check (runes_of_ascii "// a
-// b
+Eval vm_compute in ("<<<M1418>>>" ++ check (runes_of_ascii "packet
+T T
+{ match repeatCount as	calculatedFrom
+{ [65535 ]	: As	,
+} ,}
+// trailing space 
 ")).
-Eval vm_compute in ("<<<M1020>>>" ++ check (runes_of_ascii "// c" ++ [8287]%N)).
+Eval vm_compute in ("<<<M1506>>>" ++ check (runes_of_ascii "packet
+T
+{ match repeatCount as	calculatedFrom
+{ [65535 ]	: @As	,
+} ,}
+// trailing space 
+")).
+Eval vm_compute in ("<<<M1465>>>" ++ check (runes_of_ascii "packet
+T
+{ match repeatCount as	calculatedFrom
+{ [65535 :	: As	,
+} ,}
+// trailing space 
+")).
+Eval vm_compute in ("<<<M1487>>>" ++ check (runes_of_ascii "packet
+T
+{ match repeatCount as	calculatedFrom
+{ [65535 ]	: As	,
+} }
+// trailing space 
+")).
+Eval vm_compute in ("<<<M1778>>>" ++ check (runes_of_ascii "options{  lengthOf =//x
+i16;
+    BodyLength = 0 ; pack
+= false 007
+    A = char[ 3 ] }")).
+Eval vm_compute in ("<<<M1824>>>" ++ check (runes_of_ascii "options{  lengthOf =//x
+i16;
+    BodyLength = 0 # ; pack
+= false;
+    A = char[ 3 ] }")).
+Eval vm_compute in ("<<<M955>>>" ++ check (runes_of_ascii "
+options {metadata = 3 u8x
+    =
+    false repeatCount=
+    i64 ;
+Z9_
+    = false}")).
+Eval vm_compute in ("<<<M4361>>>" ++ check (runes_of_ascii "packet A {
+    B b `
+        x`,
+    B `
+        x`,
+    repeat B bs `
+        x`,
+}")).
+Eval vm_compute in ("<<<M2927>>>" ++ check (runes_of_ascii "packet A {
+  match k as n {
+    [""a"", 22, ""c c"", 4, ""e"", 66] : B,
+    2 : C
+  },
+}")).
+Eval vm_compute in ("<<<M3385>>>" ++ check (runes_of_ascii "options {
+    FixedStringPadFromLeft = true;
+}
+root packet P {
+    char[4] z,
+}
+")).
+Eval vm_compute in ("<<<M3256>>>" ++ check (runes_of_ascii "MetaData Foo { zchar[ 0 ]
+// c
+matchKey , } options { lengthOf = i32 u = 00 ; }")).
+Eval vm_compute in ("<<<M2914>>>" ++ check (runes_of_ascii "packet A {
+  match k as n {
+    [""a"", 22, ""c c"", 4, ""e""] : B,
+    2 : C
+  },
+}")).
+Eval vm_compute in ("<<<M452>>>" ++ check (runes_of_ascii "packet  i8i8	{ repeat
+    // " ++ [128512]%N ++ runes_of_ascii " emoji
+    char //x
+int ,
+    // " ++ [27880; 37322]%N ++ runes_of_ascii "
+    } 	 ")).
+Eval vm_compute in ("<<<M496>>>" ++ check (runes_of_ascii "packet
+    A
+    { repeat zchar[
+    // @lengthOf(
+    65535] rootA , }
+")).
+Eval vm_compute in ("<<<M378>>>" ++ check (runes_of_ascii "
+root packet _x{  f32a @calculatedFrom(	""{,}""
+    ) `line1
+line2` , }
+")).
+Eval vm_compute in ("<<<M2886>>>" ++ check (runes_of_ascii "packet A {
+  match k as n {
+    [1, ""bb"", 007] : B,
+    2 : C
+  },
+}")).
+Eval vm_compute in ("<<<M2882>>>" ++ check (runes_of_ascii "packet A {
+  match k as n {
+    [1, 22, 007] : B,
+    2 : C
+  },
+}")).
+Eval vm_compute in ("<<<M3595>>>" ++ check (runes_of_ascii "packet 	 // " ++ [27880; 37322]%N ++ runes_of_ascii "
+
+BodyLength	{  f64
+body 
+@lengthOf(
+
+o  )
+    ,}
+")).
+Eval vm_compute in ("<<<M302>>>" ++ check (runes_of_ascii "packet
+u8x { //
+}root // " ++ [128512]%N ++ runes_of_ascii " emoji
+packet // a // b
+As	{ } 	 ")).
+Eval vm_compute in ("<<<M3312>>>" ++ check (runes_of_ascii "packet u8x { } MetaData crc { char[ 4294967296 ] Foo
+// c
+, }")).
+Eval vm_compute in ("<<<M3399>>>" ++ check (runes_of_ascii "root packet P {
+    repeat string ss,
+    repeat u16 ns,
+}
+")).
+Eval vm_compute in ("<<<M3213>>>" ++ check (runes_of_ascii "packet A {
+    match k as n {
+        1 : B,// c
+    },
+}")).
+Eval vm_compute in ("<<<M4194>>>" ++ check (runes_of_ascii "options {
+    a = ""\
+        "";
+    b = ""\
+        ""
+}")).
+Eval vm_compute in ("<<<M515>>>" ++ check (runes_of_ascii "packet
+packetx {  char[
+7	] BodyLength`it's` , }
+")).
+Eval vm_compute in ("<<<M3355>>>" ++ check (runes_of_ascii "root packet P {
+    repeat char cs,
+    u8 x,
+}
+")).
+Eval vm_compute in ("<<<M929>>>" ++ check (runes_of_ascii "root packet BodyLength{ string
+MetaDataX,
+}")).
+Eval vm_compute in ("<<<M2569>>>" ++ check (runes_of_ascii "packet A { repeat match k as n { 1 : B }, }")).
+Eval vm_compute in ("<<<M2728>>>" ++ check (runes_of_ascii "as [ , MetaData @tag( false as packet f32")).
+Eval vm_compute in ("<<<M4074>>>" ++ check (runes_of_ascii "
+packet
+    A
+
+    { } 
+    // c" ++ [8232]%N ++ runes_of_ascii "
+ 
+")).
+Eval vm_compute in ("<<<M487>>>" ++ check (runes_of_ascii "packet
+stringy
+    {
+} packet
+rootA{}
+")).
+Eval vm_compute in ("<<<M2590>>>" ++ check (runes_of_ascii "packet A { zchar[3] x @lengthOf(y), }")).
+Eval vm_compute in ("<<<M3197>>>" ++ check (runes_of_ascii "options { a = 1; // a
+ b = 2 // b
+ }")).
+Eval vm_compute in ("<<<M1138>>>" ++ check (runes_of_ascii "options
+{ }
+// packet A { u8 x, }
+")).
+Eval vm_compute in ("<<<M3975>>>" ++ check (runes_of_ascii "  packet
+A
+    {
+	u8	x`%%d%!`	, }")).
+Eval vm_compute in ("<<<M392>>>" ++ check (runes_of_ascii "// c
+MetaData tag{char[] u , }
+")).
+Eval vm_compute in ("<<<M3072>>>" ++ check (runes_of_ascii "packet A {
+    u8 x `%%d%!`,
+}")).
+Eval vm_compute in ("<<<M3350>>>" ++ check (runes_of_ascii "options { u8x = false } // c
+")).
+Eval vm_compute in ("<<<M3919>>>" ++ check (runes_of_ascii "packet A
+
+    { }  // c" ++ [6158]%N ++ runes_of_ascii "
+")).
+Eval vm_compute in ("<<<M2454>>>" ++ check (runes_of_ascii "int8 int16 int32 int64 int")).
+Eval vm_compute in ("<<<M685>>>" ++ check (runes_of_ascii "MetaData  metadata { }
+")).
+Eval vm_compute in ("<<<M2772>>>" ++ check (runes_of_ascii "`say ""hi""` uint8 ] char")).
+Eval vm_compute in ("<<<M2582>>>" ++ check (runes_of_ascii "packet A { x y `d`, }")).
+Eval vm_compute in ("<<<M354>>>" ++ check (runes_of_ascii " // trailing space ")).
+Eval vm_compute in ("<<<M643>>>" ++ check (runes_of_ascii "packet matchKey{ }")).
+Eval vm_compute in ("<<<M3147>>>" ++ check (runes_of_ascii "packet A {
+}
+// c" ++ [11]%N)).
+Eval vm_compute in ("<<<M2704>>>" ++ check (runes_of_ascii "[ as 42 i32 int16")).
+Eval vm_compute in ("<<<M2648>>>" ++ check (runes_of_ascii "root options { }")).
+Eval vm_compute in ("<<<M2637>>>" ++ check (runes_of_ascii "packet A { } }")).
+Eval vm_compute in ("<<<M2790>>>" ++ check (runes_of_ascii "u_;=}S0o.59_")).
+Eval vm_compute in ("<<<M2490>>>" ++ check (runes_of_ascii "@leftPadx")).
+Eval vm_compute in ("<<<M2469>>>" ++ check (runes_of_ascii "packets")).
+Eval vm_compute in ("<<<M3156>>>" ++ check (runes_of_ascii "// c 	")).
+Eval vm_compute in ("<<<M3096>>>" ++ check (runes_of_ascii "// c" ++ [12288]%N)).
+Eval vm_compute in ("<<<M2534>>>" ++ check (runes_of_ascii "0x10")).
+Eval vm_compute in ("<<<M2539>>>" ++ check (runes_of_ascii "a-b")).
+Eval vm_compute in ("<<<M2555>>>" ++ check (runes_of_ascii "	a")).
